@@ -2,27 +2,31 @@
   C13 — Peering: lower-priority operators pause, exactly the top one is active. Property theorems only.
 
   Model: `Kopf/Model/C13_Peering.lean`. `decideEv` is one call of `process_peering_event` on ANY status content (unknown
-  keys, missing fields, garbled values, dead records, the own record); `step` is the shared peering object with any
-  number of operators under any order of starts, keep-alives (landing late), graceful exits in the order they ought to
-  have (`exit`) and in the order the code has (`exitBegin` … `exitEnd`: record withdrawn first, handling stopped last —
-  finding F7), exits with a lost withdrawal, kills, deliveries of the CURRENT status (`deliver`) or of an OLDER view
-  (`deliverStale`, whose `clean()` lands on the current status), passing time and foreign writes.
+  keys, missing fields, garbled values, dead records, the own record); `step` is the shared peering object - status AND
+  version - with any number of operators under any order of starts, keep-alives (landing late), graceful exits in the two
+  steps the code has since 26a293c (`exitBegin`: handling and peering observer stop, the pinger goes on … `exitEnd`: the
+  record is withdrawn; `exit` = both at once), exits with a lost withdrawal, kills, deliveries of the CURRENT status
+  (`deliver`) or of a view of ANY age (`deliverStale i view vv`: the verdict comes from the view; its `clean()` names the
+  view's version `vv` and is applied only if the object is still at `vv` - 054d47d), passing time and foreign writes.
   `u` = ticks per second, lifetimes are whole seconds, `dead r now ⇔ lastseen + lifetime·u ≤ now`.
 
-  What is and is not claimed (the property as written is FALSE of the code where views are old: findings F4/F5):
+  What is and is not claimed:
   * per call, for every status content: `paused_iff`, `turned_iff`, `dead_cleaned`, `wake_at_deadline`;
-  * for every label list, guard "no self-touch of the exiting operator in flight": `withdrawn_stays(_from)_partial`; without
-    it `selftouch_in_flight_witness` (F9, corpus/C13/F9.json);
-  * under the guard "every processed view is current OR BENIGN" (`Stable.current`, resp. `Quiet` interleavings and batches
-    of `deliver`; benign = same verdict and same cleaning as the current status: `benign_stale_eq_deliver` for one step,
-    `benign_run_eq_current` for whole runs): the `…_partial` theorems (`exactly_top`, `at_most_one_active`,
-    `equal_priority_both_paused`, `settle`, `failover_exit`, `failover_after_loss`); outside it
-    `stale_view_two_active_witness` (F4 in Lean, replayed on the real code: corpus/C13/F4.json) and
-    `restart_stale_view_two_active_witness` (F5, corpus/C13/F5.json);
-  * the graceful stop of the code is the proper one with a window in between (`exit_two_phase`); in that window the
-    successor and the exiting operator are both active (`exit_overlap_two_active_witness`, F7, corpus/C13/F7.json);
-  * for timely runs (`Timely`: API calls ≤ B ticks, old views only if benign): `own_record_fresh`, backed by `renewal`;
-  * progress / possibility: `resume_after_expiry`, `convergence_possible`.
+  * FULL, for every view and every label list: a clean from an older version changes nothing (`stale_clean_refused`), a
+    clean that lands removes only records that are dead in the CURRENT status (`clean_removes_only_dead`), a live record
+    stays until its owner (or a foreign writer under its name) replaces it (`live_record_kept`) - findings F4 (lasting
+    half) and F5 were the negation; `withdraw_on_exit`, `withdrawn_stays(_from)` with no guard (F9 was the negation),
+    `exit_two_phase`, `exiting_operator_still_blocks` (F7 was the negation);
+  * for timely runs (`Timely`: API calls ≤ B ticks; views of ANY age, graceful stops in two steps): `own_record_fresh`;
+  * what remains guarded (`…_partial`): a VERDICT taken from an old view is the old verdict. `exactly_top_partial`,
+    `at_most_one_active_partial` hold in states where every running operator's last view had the verdict of the current
+    status (`Stable.current`); `settle_partial`, `failover_exit_partial`, `failover_after_loss(_timely)_partial` let ANY
+    views be processed in between and ask that the LAST view each operator processes be the current status. Outside:
+    `stale_verdict_two_active_witness` (the residue of F4: a live peer judged dead from a view older than its keep-alive
+    margin makes the reader resume until its next event; nothing is deleted), `restart_stale_view_record_kept` (F5's
+    schedule: the fresh record survives);
+  * progress / possibility: `resume_after_expiry`, `convergence_possible`, `cleanup_possible`; a dead record is NOT
+    inevitably cleaned: `cleanup_starved_witness`.
   The pause EFFECTS (streams closed, daemons stopped, nothing handled beyond queued events, nothing handled twice) have
   no theorem here: they are checked by the simulation oracle only.
 -/
@@ -75,19 +79,19 @@ theorem turned_iff {u : Int} {ps : List Peer} {me : Identity} {p : Int} {ac t0 :
 
 /-- A stable state: every running operator has a fresh record carrying its priority, every fresh
     record belongs to a running operator, running priorities are distinct, and every running operator
-    has processed the latest version of the status as its current view (`deliver`) or through a BENIGN older view
-    (`deliverStale` with `benignView`: same verdict, same cleaning — `benign_stale_eq_deliver`), no record having expired
-    since. `current` is the guard; what it excludes is exactly a last view whose verdict or cleaning differs from the
-    current status' (findings F4/F5), and it says nothing of an operator between `exitBegin` and `exitEnd` having a record
-    (`Good` fails there: F7). -/
+    holds the verdict of the latest version of the status: it has processed it as its current view (`deliver`) or through
+    an older view that gives the SAME VERDICT (`deliverStale` with `sameVerdict`; what the view would clean does not matter:
+    `stale_clean_refused`), no record having expired since. `current` is the guard; what it excludes is exactly a last
+    view whose verdict differs from the current status' (the residue of finding F4). -/
 structure Stable (u : Int) (s : State) : Prop where
   good : Good u s
   current : ∀ i op, s.ops i = some op → op.alive = true →
     ∃ t, op.seen = some (s.ver, t) ∧ ∀ j r, (j, r) ∈ s.status → (r.dead u t = r.dead u s.now)
 
 /- Full clause: "among running operators with distinct priorities that see each other, exactly the highest-priority one
-   ends up active" — for every delivery timing. FALSE of the code for old views (`stale_view_two_active_witness`). -/
-/-- PARTIAL (guard: `Stable`, i.e. every running operator's last processed view is the current status). In every
+   ends up active" — for every delivery timing. FALSE of the code while some operator's last view is an old one with
+   another verdict (`stale_verdict_two_active_witness`: until its next event). -/
+/-- PARTIAL (guard: `Stable`, i.e. every running operator's last processed view has the verdict of the current status). In every
     reachable stable state — whatever history led there, old views included —, a running operator is active iff its
     priority is the maximum of the running operators, for any number of operators. -/
 theorem exactly_top_partial {u : Int} {s : State} (hr : Reachable u s) (hs : Stable u s) : ExactlyTop s := by
@@ -102,8 +106,8 @@ theorem exactly_top_partial {u : Int} {s : State} (hr : Reachable u s) (hs : Sta
   · rintro ⟨hd, hm⟩; exact ⟨by rw [hsame j r hm]; exact hd, hm⟩
 
 /-- PARTIAL (same guard). Hence at most one running operator is active. Without the guard two running operators can both
-    be active: with an old view (`stale_view_two_active_witness`), or when time passes with no keep-alive at all (excluded
-    in timely runs by `own_record_fresh`). -/
+    be active: for a moment, with the verdict of an old view (`stale_verdict_two_active_witness`), or when time passes with no
+    keep-alive at all (excluded in timely runs by `own_record_fresh`). -/
 theorem at_most_one_active_partial {u : Int} {s : State} (hr : Reachable u s) (hs : Stable u s)
     {i j : Identity} {oi oj : Op} (hi : s.ops i = some oi) (hj : s.ops j = some oj)
     (hai : oi.alive = true) (haj : oj.alive = true) (hpi : oi.paused = false) (hpj : oj.paused = false) : i = j := by
@@ -112,7 +116,7 @@ theorem at_most_one_active_partial {u : Int} {s : State} (hr : Reachable u s) (h
   have h2 := (ht j oj hj haj).mp hpj i oi hi hai
   exact hs.good.distinct i j oi oj hi hj hai haj (by omega)
 
-/-- PARTIAL (guard: both process the current status, or a benign view of it — `benign_stale_eq_deliver`). Equal priority is a
+/-- PARTIAL (guard: both process the current status, or a view with its verdict — `stale_same_verdict`). Equal priority is a
     conflict: two running operators with fresh records of the same priority that have both processed the status are both
     paused. -/
 theorem equal_priority_both_paused_partial {u : Int} {s s1 s2 : State} {i j : Identity} {oi oj : Op} {ri rj : Rec}
@@ -139,89 +143,168 @@ theorem equal_priority_both_paused_partial {u : Int} {s s1 s2 : State} {i j : Id
     exact ⟨i, ri, hri, hne, hfi, by omega⟩
 
 
-/-! ## old views (findings F4 / F5): what goes wrong, and what still holds -/
+/-! ## views of any age: the peering object is safe from them (findings F4 - lasting half - and F5, repaired by 054d47d) -/
 
-/-- F4 in Lean. A (priority 100, lifetime 2 s) and B (priority 10) run; A renews its record in time (stamped 64, fresh
-    until 192). At clock 128 B processes the view of BEFORE that renewal — a status that really existed (first conjunct):
-    there A's record (stamped 0) is dead at B's clock, so B hands "A" to `clean()`, and the unconditional delete-by-identity
-    removes A's CURRENT, fresh record; B resumes. End state: A and B both running and both active, A without a record.
-    This contradicts `exactly_top`/`at_most_one_active` without the `Stable.current` guard, and shows that `Good` is not
-    preserved by `deliverStale`. Replayed on the real code: corpus/C13/F4.json (delivery later than the keep-alive margin). -/
-theorem stale_view_two_active_witness :
-    (run 64 init [.start "A" 100 2, .start "B" 10 10, .keepalive "A" 0, .keepalive "B" 0, .deliver "A", .deliver "B"]).map (·.status)
-      = some [("A", ⟨100, 2, 0⟩), ("B", ⟨10, 10, 0⟩)] ∧
-    (run 64 init [.start "A" 100 2, .start "B" 10 10, .keepalive "A" 0, .keepalive "B" 0, .deliver "A", .deliver "B",
-                  .tick 64, .keepalive "A" 0, .tick 64]).map (fun s => (s.now, s.status, (s.ops "B").map (·.paused)))
-      = some (128, [("A", ⟨100, 2, 64⟩), ("B", ⟨10, 10, 0⟩)], some true) ∧
-    (run 64 init [.start "A" 100 2, .start "B" 10 10, .keepalive "A" 0, .keepalive "B" 0, .deliver "A", .deliver "B",
-                  .tick 64, .keepalive "A" 0, .tick 64,
-                  .deliverStale "B" [("A", ⟨100, 2, 0⟩), ("B", ⟨10, 10, 0⟩)]]).map
-        (fun s => ((s.ops "A").map (fun o => (o.alive, o.paused)), (s.ops "B").map (fun o => (o.alive, o.paused)), s.status))
-      = some (some (true, false), some (true, false), [("B", ⟨10, 10, 0⟩)]) := by decide
+/-- FULL. A view taken at a version that is not the current one - however old, whatever it says - changes NOTHING in the
+    peering object: its `clean()` names that version and is refused (409, ignored). Only the reader's own flags move. -/
+theorem stale_clean_refused {u : Int} {s s' : State} {i : Identity} {view : Status} {vv : Nat}
+    (h : step u s (.deliverStale i view vv) = some s') (hv : vv ≠ s.ver) :
+    s'.status = s.status ∧ s'.ver = s.ver ∧ s'.now = s.now ∧ ∀ k, k ≠ i → s'.ops k = s.ops k := by
+  obtain ⟨o, _, _, _, hnow, hst, hver, hops⟩ := stale_refused_spec h hv
+  exact ⟨hst, hver, hnow, fun k hk => by rw [hops, updOp_other _ _ hk]⟩
 
-set_option synthInstance.maxSize 1024 in
-/-- F5 in Lean (same root as F4, by a restart instead of a renewal). A (priority 100) is killed, its record expires, A is
-    restarted UNDER THE SAME IDENTITY and announces itself (record stamped 128). B then processes the view from before all
-    that: A's old record is dead at B's clock, B hands "A" to `clean()`, the delete-by-identity removes the restarted A's
-    fresh record, B resumes: both running, both active. Replayed on the real code: corpus/C13/F5.json. -/
-theorem restart_stale_view_two_active_witness :
-    (run 64 init [.start "A" 100 2, .start "B" 10 10, .keepalive "A" 0, .keepalive "B" 0, .deliver "A", .deliver "B",
-                  .kill "A", .tick 128, .start "A" 100 2, .keepalive "A" 0, .deliver "A"]).map
-        (fun s => (s.now, s.status, (s.ops "A").map (fun o => (o.alive, o.paused)), (s.ops "B").map (fun o => (o.alive, o.paused))))
-      = some (128, [("A", ⟨100, 2, 128⟩), ("B", ⟨10, 10, 0⟩)], some (true, false), some (true, true)) ∧
-    (run 64 init [.start "A" 100 2, .start "B" 10 10, .keepalive "A" 0, .keepalive "B" 0, .deliver "A", .deliver "B",
-                  .kill "A", .tick 128, .start "A" 100 2, .keepalive "A" 0, .deliver "A",
-                  .deliverStale "B" [("A", ⟨100, 2, 0⟩), ("B", ⟨10, 10, 0⟩)]]).map
-        (fun s => ((s.ops "A").map (fun o => (o.alive, o.paused)), (s.ops "B").map (fun o => (o.alive, o.paused)), s.status))
-      = some (some (true, false), some (true, false), [("B", ⟨10, 10, 0⟩)]) := by decide
+/-- FULL. Whatever view an operator processes (the current status, or a view of any version): a record that disappears
+    from the peering object was DEAD in the current status at that moment and belonged to somebody else. A live record -
+    renewed since the view was taken, or written by a restarted process under the same identity - is never deleted. -/
+theorem clean_removes_only_dead {u : Int} {s s' : State} {i : Identity} {view : Status} {vv : Nat}
+    (h : step u s (.deliverStale i view vv) = some s' ∨ step u s (.deliver i) = some s')
+    {j : Identity} {r : Rec} (hm : (j, r) ∈ s.status) (hgone : (j, r) ∉ s'.status) :
+    r.dead u s.now = true ∧ j ≠ i := by
+  have key : s'.status = s.status ∨ s'.status = s.status.filter (fun e => !(e.2.dead u s.now && e.1 != i)) := by
+    rcases h with h | h
+    · obtain ⟨_, _, _, _, _, _, hst, _⟩ := stale_spec h; exact hst
+    · obtain ⟨_, _, _, _, hst, _⟩ := deliver_spec h; exact Or.inr hst
+  rcases key with e | e
+  · rw [e] at hgone; exact absurd hm hgone
+  · rw [e, List.mem_filter] at hgone
+    cases hd : r.dead u s.now with
+    | false => exact absurd ⟨hm, by simp [hd]⟩ hgone
+    | true =>
+      refine ⟨rfl, ?_⟩
+      intro hji
+      exact hgone ⟨hm, by simp [hji]⟩
 
-/-- A view need not be the current status to be harmless: if, judged at the operator's clock, it blocks the operator exactly
-    as the current status does and names for cleaning exactly the identities whose current records are dead (`benignView`:
-    nobody renewed, restarted or wrote under those identities since), then processing it IS processing the current status
-    — the same next state, `seen` included. So `Stable.current`, and with it every `_partial` theorem of this file, covers
-    such views; the guard excludes exactly the views of findings F4/F5 (a record judged dead that has been replaced,
-    or a verdict that differs). -/
-theorem benign_stale_eq_deliver {u : Int} {s : State} {i : Identity} {view : Status} {o : Op}
-    (ho : s.ops i = some o) (hb : benignView u s i o.prio view = true) :
-    step u s (.deliverStale i view) = step u s (.deliver i) :=
-  benign_eq_deliver ho hb
+/-- the labels by which the records under identity `j` legitimately change: `j`'s own writes (keep-alive, self-touch,
+    withdrawal) and anybody's write under `j`'s name -/
+def Writes (j : Identity) : Label → Prop
+  | .keepalive i _ | .wake i _ | .land i | .exit i | .exitEnd i | .foreign i _ => i = j
+  | _ => False
 
-/-- … and so for whole runs: a run along which every older view is benign (`benignRun`) IS the run in which those views
-    are the current status (`Label.current` turns `deliverStale i view` into `deliver i`): the same end state, or both
-    not runs. Every `_partial` theorem below that is stated for `deliver` labels (`Quiet` interleavings, batches of
-    deliveries) therefore applies verbatim to the real runs in which events arrive late but harmlessly. -/
-theorem benign_run_eq_current {u : Int} : ∀ (ls : List Label) (s : State), benignRun u s ls = true →
-    run u s ls = run u s (ls.map Label.current) := by
+/-- FULL, for ALL label lists: a record stays in the peering object for as long as it is alive, whatever the OTHER
+    operators do - start, stop, get killed, process views of any age, clean -, until its owner replaces or withdraws it
+    (or somebody writes under its name). "A reader's stale view deletes a peer's current record" (F4, F5) is not a run. -/
+theorem live_record_kept {u : Int} {j : Identity} {r : Rec} : ∀ (ls : List Label) (s s' : State),
+    run u s ls = some s' → (j, r) ∈ s.status → r.dead u s'.now = false → (∀ l ∈ ls, ¬ Writes j l) →
+    (j, r) ∈ s'.status := by
   intro ls
   induction ls with
-  | nil => intro s _; rfl
+  | nil => intro s s' h hm _ _; simp only [run, Option.some.injEq] at h; subst h; exact hm
   | cons l rest ih =>
-    intro s hb
-    simp only [benignRun, Bool.and_eq_true] at hb
-    obtain ⟨hl, hrest⟩ := hb
-    have hstep : step u s l.current = step u s l := by
-      cases l with
-      | deliverStale i view =>
-        simp only [Label.current]
-        cases ho : s.ops i with
-        | none => simp [step, ho]
-        | some o =>
-          simp only [ho] at hl
-          exact (benign_eq_deliver ho hl).symm
-      | _ => rfl
-    simp only [List.map_cons, run, hstep]
+    intro s s' h hm hlive hw
+    simp only [run] at h
     cases hs : step u s l with
-    | none => rfl
+    | none => simp [hs] at h
     | some s1 =>
-      simp only [hs] at hrest
-      exact ih s1 hrest
+      simp only [hs] at h
+      have hle1 := now_mono_step hs
+      have hle2 := now_mono_run rest s1 s' h
+      have hl0 : r.dead u s.now = false := dead_anti (by omega) hlive
+      have hnw := hw l List.mem_cons_self
+      refine ih s1 s' h ?_ hlive (fun l' hl' => hw l' (List.mem_cons_of_mem _ hl'))
+      have filt : ∀ i : Identity, (j, r) ∈ s.status.filter (fun e => !(e.2.dead u s.now && e.1 != i)) :=
+        fun i => List.mem_filter.mpr ⟨hm, by simp [hl0]⟩
+      cases l with
+      | start i p L => obtain ⟨_, hst, _⟩ := start_spec hs; rw [hst]; exact hm
+      | keepalive i lag =>
+        obtain ⟨_, _, _, _, _, hst, _⟩ := keepalive_spec hs
+        rw [hst]; exact (mem_patch_other (fun e => hnw e)).mpr hm
+      | exit i =>
+        obtain ⟨_, _, _, _, hst, _⟩ := exit_spec hs
+        rw [hst]; exact mem_erase.mpr ⟨hm, fun e => hnw e.symm⟩
+      | exitLost i => obtain ⟨_, _, _, _, hst, _⟩ := exitLost_spec hs; rw [hst]; exact hm
+      | exitBegin i => obtain ⟨_, _, _, _, _, hst, _⟩ := exitBegin_spec hs; rw [hst]; exact hm
+      | exitEnd i =>
+        obtain ⟨_, _, _, _, _, hst, _⟩ := exitEnd_spec hs
+        rw [hst]; exact mem_erase.mpr ⟨hm, fun e => hnw e.symm⟩
+      | kill i => obtain ⟨_, _, _, _, hst, _⟩ := kill_spec hs; rw [hst]; exact hm
+      | deliver i => obtain ⟨_, _, _, _, hst, _⟩ := deliver_spec hs; rw [hst]; exact filt i
+      | deliverStale i v vv =>
+        obtain ⟨_, _, _, _, _, _, hst, _⟩ := stale_spec hs
+        rcases hst with e | e
+        · rw [e]; exact hm
+        · rw [e]; exact filt i
+      | tick d => simp only [step, Option.some.injEq] at hs; subst hs; exact hm
+      | expire k => simp only [step, Option.some.injEq] at hs; subst hs; exact hm
+      | foreign i v =>
+        simp only [step, Option.some.injEq] at hs; subst hs
+        exact (mem_patch_other (fun e => hnw e)).mpr hm
+      | wake i lag =>
+        obtain ⟨_, _, _, _, hst, _⟩ := wake_spec hs
+        rw [hst]; exact (mem_patch_other (fun e => hnw e)).mpr hm
+      | wakeIssue i => obtain ⟨_, _, _, _, _, hst, _⟩ := wakeIssue_spec hs; rw [hst]; exact hm
+      | land i =>
+        obtain ⟨_, _, _, _, _, hst, _⟩ := land_spec hs
+        rw [hst]; exact (mem_patch_other (fun e => hnw e)).mpr hm
 
-/-! ## the graceful stop of the code (finding F7) -/
+/-- An older view need not be harmful even for the reader's own verdict: if, judged at the operator's clock, it blocks the
+    operator exactly as the current status does (`sameVerdict`), then processing it sets the operator's entry - verdict,
+    sleep, `seen` - exactly as processing the current status would; the peering object stays as it is (the dead records it
+    holds are cleaned by a later call that sees the current version). So `Stable.current` covers such views. -/
+theorem stale_same_verdict {u : Int} {s s1 s2 : State} {i : Identity} {view : Status} {vv : Nat} {o : Op}
+    (ho : s.ops i = some o) (hv : vv ≠ s.ver) (hb : sameVerdict u s i o.prio view = true)
+    (h1 : step u s (.deliverStale i view vv) = some s1) (h2 : step u s (.deliver i) = some s2) :
+    s1.ops = s2.ops ∧ s1.status = s.status := by
+  obtain ⟨o1, ho1, _, _, _, hst, _, hops1⟩ := stale_refused_spec h1 hv
+  obtain ⟨o2, ho2, _, _, _, _, _, hops2⟩ := deliver_spec h2
+  rw [ho] at ho1 ho2; injection ho1 with e1; injection ho2 with e2; subst e1; subst e2
+  refine ⟨?_, hst⟩
+  have hbl : blockedB u view i o.prio s.now = blockedB u s.status i o.prio s.now := by simpa [sameVerdict] using hb
+  rw [hops1, hops2]
+  simp only [willTouchView, willTouch, decideCore_touch, staleSeen, hb, if_true, hbl]
 
-/-- The code's graceful stop (`exitBegin`: the pinger's `finally` withdraws the record; … ; `exitEnd`: the watchers and the
-    handlers they run have stopped) is the proper stop (`exit`) whenever nothing happens in between: the two steps compose
-    to the one. Every difference between the code and `failover_exit_partial`/`withdrawn_stays_partial` is therefore what other
-    operators do between the two steps. -/
+set_option synthInstance.maxSize 2048 in
+/-- The residue of F4 in Lean (a wrong VERDICT from an old view; inherent to judging an old `lastseen` against the own
+    clock). A (priority 100, lifetime 2 s) and B (priority 10) run; A renews its record in time (stamped 64, fresh until
+    192). At clock 128 B processes the view of BEFORE that renewal — a status that really existed, at version 2 (first
+    conjunct), the object being at version 3 now —: there A's record (stamped 0) is dead at B's clock, so B finds no blocker
+    and RESUMES: A and B are both running and both active (third conjunct). But nothing is deleted: B's clean names
+    version 2 and is refused, A's current record is intact; the event of A's renewal, which is on its way, pauses B again
+    (fourth conjunct). Replayed on the real code: corpus/C13/F4.json (delivery later than the keep-alive margin). -/
+theorem stale_verdict_two_active_witness :
+    (run 64 init [.start "A" 100 2, .start "B" 10 10, .keepalive "A" 0, .keepalive "B" 0, .deliver "A", .deliver "B"]).map
+        (fun s => (s.ver, s.status)) = some (2, [("A", ⟨100, 2, 0⟩), ("B", ⟨10, 10, 0⟩)]) ∧
+    (run 64 init [.start "A" 100 2, .start "B" 10 10, .keepalive "A" 0, .keepalive "B" 0, .deliver "A", .deliver "B",
+                  .tick 64, .keepalive "A" 0, .tick 64]).map (fun s => (s.now, s.ver, s.status, (s.ops "B").map (·.paused)))
+      = some (128, 3, [("A", ⟨100, 2, 64⟩), ("B", ⟨10, 10, 0⟩)], some true) ∧
+    (run 64 init [.start "A" 100 2, .start "B" 10 10, .keepalive "A" 0, .keepalive "B" 0, .deliver "A", .deliver "B",
+                  .tick 64, .keepalive "A" 0, .tick 64,
+                  .deliverStale "B" [("A", ⟨100, 2, 0⟩), ("B", ⟨10, 10, 0⟩)] 2]).map
+        (fun s => ((s.ops "A").map (fun o => (o.alive, o.paused)), (s.ops "B").map (fun o => (o.alive, o.paused)), s.status))
+      = some (some (true, false), some (true, false), [("A", ⟨100, 2, 64⟩), ("B", ⟨10, 10, 0⟩)]) ∧
+    (run 64 init [.start "A" 100 2, .start "B" 10 10, .keepalive "A" 0, .keepalive "B" 0, .deliver "A", .deliver "B",
+                  .tick 64, .keepalive "A" 0, .tick 64,
+                  .deliverStale "B" [("A", ⟨100, 2, 0⟩), ("B", ⟨10, 10, 0⟩)] 2, .deliver "B"]).map
+        (fun s => ((s.ops "A").map (fun o => (o.alive, o.paused)), (s.ops "B").map (fun o => (o.alive, o.paused))))
+      = some (some (true, false), some (true, true)) := by decide
+
+set_option synthInstance.maxSize 2048 in
+/-- F5's schedule in Lean (repaired by 054d47d). A (priority 100) is killed, its record expires, A is restarted UNDER THE
+    SAME IDENTITY and announces itself (record stamped 128, version 3). B then processes the view from before all that
+    (version 2): A's old record is dead at B's clock, B hands "A" to `clean()` - which names version 2 and is refused: the
+    restarted A's fresh record STAYS (it used to be deleted: A invisible until its next keep-alive). B's verdict from that
+    view is the old one (B resumes: the residue of F4) until the event of A's announcement arrives (third conjunct).
+    Replayed on the real code: corpus/C13/F5.json (must pass). -/
+theorem restart_stale_view_record_kept :
+    (run 64 init [.start "A" 100 2, .start "B" 10 10, .keepalive "A" 0, .keepalive "B" 0, .deliver "A", .deliver "B",
+                  .kill "A", .tick 128, .start "A" 100 2, .keepalive "A" 0, .deliver "A"]).map
+        (fun s => (s.now, s.ver, s.status, (s.ops "A").map (fun o => (o.alive, o.paused)), (s.ops "B").map (fun o => (o.alive, o.paused))))
+      = some (128, 3, [("A", ⟨100, 2, 128⟩), ("B", ⟨10, 10, 0⟩)], some (true, false), some (true, true)) ∧
+    (run 64 init [.start "A" 100 2, .start "B" 10 10, .keepalive "A" 0, .keepalive "B" 0, .deliver "A", .deliver "B",
+                  .kill "A", .tick 128, .start "A" 100 2, .keepalive "A" 0, .deliver "A",
+                  .deliverStale "B" [("A", ⟨100, 2, 0⟩), ("B", ⟨10, 10, 0⟩)] 2]).map
+        (fun s => ((s.ops "A").map (fun o => (o.alive, o.paused)), (s.ops "B").map (fun o => (o.alive, o.paused)), s.status))
+      = some (some (true, false), some (true, false), [("A", ⟨100, 2, 128⟩), ("B", ⟨10, 10, 0⟩)]) ∧
+    (run 64 init [.start "A" 100 2, .start "B" 10 10, .keepalive "A" 0, .keepalive "B" 0, .deliver "A", .deliver "B",
+                  .kill "A", .tick 128, .start "A" 100 2, .keepalive "A" 0, .deliver "A",
+                  .deliverStale "B" [("A", ⟨100, 2, 0⟩), ("B", ⟨10, 10, 0⟩)] 2, .deliver "B"]).map
+        (fun s => ((s.ops "B").map (·.paused), s.status))
+      = some (some true, [("A", ⟨100, 2, 128⟩), ("B", ⟨10, 10, 0⟩)]) := by decide
+
+/-! ## the graceful stop (finding F7, repaired by 26a293c) -/
+
+/-- The graceful stop in its two steps (`exitBegin`: the watchers and the peering observer are stopped, the pinger goes on;
+    … ; `exitEnd`: the pinger's `finally` withdraws the record) is the one-step stop (`exit`) whenever nothing happens in
+    between: the two steps compose to the one. -/
 theorem exit_two_phase (u : Int) (s : State) (i : Identity) :
     (step u s (.exitBegin i)).bind (fun s1 => step u s1 (.exitEnd i)) = step u s (.exit i) := by
   simp only [step]
@@ -236,35 +319,39 @@ theorem exit_two_phase (u : Int) (s : State) (i : Identity) :
       by_cases hk : k = i <;> simp [updOp, hk]
     · simp only [hg]; rfl
 
-/-- F7 in Lean. A (priority 100) is active, B (priority 10) is paused, everybody has seen the current status. A is told
-    to stop: its record is withdrawn FIRST (`exitBegin`) while it still handles what it has started. B sees the status
-    without A and resumes: A and B are both running and both active (second conjunct) until A's handling has ended
-    (`exitEnd`, third conjunct) — with no old view, no lost call, no late clock involved. The state in between is reachable
-    and every operator's last view is current, so only `Good` (A has no record) keeps it out of `Stable`.
-    Replayed on the real code: corpus/C13/F7.json (a handler that takes 1.5 s; B handles the same change again). -/
-theorem exit_overlap_two_active_witness :
-    (run 64 init [.start "A" 100 10, .start "B" 10 10, .keepalive "A" 0, .keepalive "B" 0, .deliver "A", .deliver "B"]).map
-        (fun s => ((s.ops "A").map (fun o => (o.alive, o.paused)), (s.ops "B").map (fun o => (o.alive, o.paused))))
-      = some (some (true, false), some (true, true)) ∧
-    (run 64 init [.start "A" 100 10, .start "B" 10 10, .keepalive "A" 0, .keepalive "B" 0, .deliver "A", .deliver "B",
-                  .exitBegin "A", .deliver "B"]).map
-        (fun s => ((s.ops "A").map (fun o => (o.alive, o.exiting, o.paused)), (s.ops "B").map (fun o => (o.alive, o.paused)),
-                   s.status.map (·.1), (s.ops "B").map (·.seen) == some (some (s.ver, s.now))))
-      = some (some (true, true, false), some (true, false), ["B"], true) ∧
-    (run 64 init [.start "A" 100 10, .start "B" 10 10, .keepalive "A" 0, .keepalive "B" 0, .deliver "A", .deliver "B",
-                  .exitBegin "A", .deliver "B", .exitEnd "A"]).map
-        (fun s => ((s.ops "A").map (·.alive), (s.ops "B").map (fun o => (o.alive, o.paused))))
-      = some (some false, some (true, false)) := by decide
+/-- FULL (timely runs, views of any age). While an operator finishes its handlers after it was asked to stop (between
+    `exitBegin` and `exitEnd`) its pinger goes on: its record is there and alive (`own_record_fresh` covers exiting
+    operators), so every operator it outranks that processes the status in that window is - stays - PAUSED: the successor
+    takes over only after the withdrawal, which comes after the last handler. (F7 was the negation: record withdrawn first.) -/
+theorem exiting_operator_still_blocks {u B : Int} {s s' : State} (hu : 0 < u) (hB : 0 ≤ B) (ht : Timely u B s)
+    {a b : Identity} {oa ob : Op} {k : Int} (hab : a ≠ b)
+    (ha : s.ops a = some oa) (haa : oa.alive = true) (_hae : oa.exiting = true) (hk : oa.nextKA = some k)
+    (hb : s.ops b = some ob) (hp : ob.prio ≤ oa.prio) (h : step u s (.deliver b) = some s') :
+    (∃ r, (a, r) ∈ s'.status ∧ r.dead u s'.now = false) ∧ ∃ ob', s'.ops b = some ob' ∧ ob'.paused = true := by
+  obtain ⟨_, hinv⟩ := ownFresh_timely hu hB ht
+  obtain ⟨h1, _, ⟨r, hr⟩, h4⟩ := hinv a oa k ha haa hk
+  obtain ⟨hpr, hl, hd⟩ := h4 r hr
+  have hlive : r.dead u s.now = false := by rw [dead_false_iff, hl]; omega
+  obtain ⟨o, ho, _, hnow, hst, _, _, hops⟩ := deliver_spec h
+  rw [hb] at ho; injection ho with e; subst e
+  refine ⟨⟨r, by rw [hst]; exact List.mem_filter.mpr ⟨hr, by simp [hlive]⟩, by rw [hnow]; exact hlive⟩,
+    { ob with paused := blockedB u s.status b ob.prio s.now, seen := some (s.ver, s.now), sleeping := willTouch u s b ob },
+    by rw [hops]; simp, ?_⟩
+  show blockedB u s.status b ob.prio s.now = true
+  rw [blockedB_iff]
+  exact ⟨a, r, hr, hab, hlive, by omega⟩
 
 /-! ## settling and failover -/
 
 /- Full clause: "… also after the active one exits or is killed" — for every delivery timing. -/
-/-- PARTIAL (guards: current or benign views only — `Quiet` has no `deliverStale`, the last batch is deliveries of the current
-    status —; the running operators' own records fresh at the end: `hown`, which `own_record_fresh` provides for timely
+/-- PARTIAL (guard: the LAST view every running operator processes is the current status — the batch `ls` —; what an
+    operator concludes from an older view it holds until its next event: `stale_verdict_two_active_witness`. Second
+    hypothesis `hown`: the running operators' own records are fresh at the end, which `own_record_fresh` provides for timely
     runs). From ANY state in which the operators see each other (`Good`) — e.g. right after the top one exited —, ANY
-    interleaving `mid` of passing time, keep-alives, waking self-touches and deliveries may follow; once every running
-    operator has then processed the status (`ls`: in any order, any number of times), exactly the top one is active, and
-    the operators still see each other. (`mid = []`: the batch alone.) -/
+    interleaving `mid` of passing time, keep-alives, waking self-touches and deliveries OF VIEWS OF ANY AGE (`Quiet` contains
+    `deliverStale` with every view and version: such a view cannot damage the peering object) may follow; once every running
+    operator has then processed the current status (`ls`: in any order, any number of times), exactly the top one is
+    active, and the operators still see each other. (`mid = []`: the batch alone.) -/
 theorem settle_partial {u : Int} {s s2 s3 : State} (hg : Good u s) (hsa : SleepAlive s)
     (mid : List Label) (hq : ∀ l ∈ mid, Quiet l) (h2 : run u s mid = some s2)
     (hown : ∀ i o, s2.ops i = some o → o.alive = true →
@@ -276,8 +363,9 @@ theorem settle_partial {u : Int} {s s2 s3 : State} (hg : Good u s) (hsa : SleepA
   exact settle ⟨hown, hng2, distinct_sameOps hso hg.distinct⟩ ls hdel hcov h3
 
 /- Full clause: "… also after the active one … is killed" — for every delivery timing. -/
-/-- PARTIAL (guards: the survivors process current or benign views — `Quiet` has no `deliverStale` —, and their own
-    records are fresh at the end: `hown`, which `own_record_fresh` provides for timely runs). An operator `a` is lost: killed,
+/-- PARTIAL (guard: the last view every survivor processes is the current status — `ls` —; in between - `mid` - views of
+    any age are processed; hypothesis `hown`: the survivors' own records are fresh at the end, which `own_record_fresh`
+    provides for timely runs). An operator `a` is lost: killed,
     or exited with its withdrawal refused by the API (`exitLost`: `keepalive`'s `finally` logs and ignores the error — for the
     peers the same as a kill). Then ANY interleaving `mid` of passing time, keep-alives, self-touches and deliveries of the
     survivors may follow; as soon as `a`'s records have expired (`hexp`) and every running operator has processed the
@@ -436,7 +524,9 @@ theorem renewal_lifetime_one (u : Int) (t : Int) (r r' : Round) (hu : 0 < u)
 
 /-- In timely runs — every `touch()` call takes at most `B` ticks, `2·B <` the margin of every started operator
     (`renewal`'s bound: then the pinger's next record lands before `nextKA + B`, which time does not overtake), nobody
-    writes under an operator's identity, old views only if benign (`benignView`), the proper exit order — a running operator
+    writes under an operator's identity; views of ANY age are processed by anybody (no guard on `deliverStale` any more: a
+    peer's clean from an old view is refused), graceful stops take their two steps with anything in between — a running operator
+    (also one that is finishing its handlers after `exitBegin`: its pinger goes on)
     that has touched once ALWAYS has a live record
     carrying its priority: `Good.own` is an invariant, whatever else happens in whatever order. -/
 theorem own_record_fresh {u B : Int} {s : State} (hu : 0 < u) (hB : 0 ≤ B) (ht : Timely u B s)
@@ -449,8 +539,8 @@ theorem own_record_fresh {u B : Int} {s : State} (hu : 0 < u) (hB : 0 ≤ B) (ht
   rw [dead_false_iff, hl]
   omega
 
-/-- The two guards compose: when the state before the final batch was reached by a timely run (`Timely u B s2`: API calls
-    ≤ B ticks with `2·B <` every margin, only benign old views, proper exits — kills and lost exits are allowed in it) and every
+/-- The hypotheses compose: when the state before the final batch was reached by a timely run (`Timely u B s2`: API calls
+    ≤ B ticks with `2·B <` every margin; views of any age, graceful stops, kills and lost exits are allowed in it) and every
     running operator has touched at least once, `own_record_fresh` discharges `hown` of `failover_after_loss_partial`: an
     operator is lost, anything `Quiet` follows, the lost one's records have expired ⇒ after a covering delivery exactly the
     top survivor is active. What remains assumed is that the operators saw each other before the loss (`Good u s`). -/
@@ -470,27 +560,25 @@ theorem failover_after_loss_timely_partial {u B : Int} {s s1 s2 s3 : State} {a :
 
 /-! ## withdrawal and cleanup -/
 
-/-- an operator that has withdrawn: gone, or still finishing its handlers after the withdrawal (between `exitBegin` and
-    `exitEnd`); no call of it sleeps towards a self-touch, and NO SELF-TOUCH OF IT IS IN FLIGHT (issued, not yet applied) -/
-def Withdrawn (o : Op) : Prop := (o.alive = false ∨ o.exiting = true) ∧ o.sleeping = false ∧ o.inflight = none
+/-- an operator that has withdrawn: gone; no call of it sleeps towards a self-touch, no self-touch of it is in flight -/
+def Withdrawn (o : Op) : Prop := o.alive = false ∧ o.sleeping = false ∧ o.inflight = none
 
-/-- The withdrawal of a graceful stop — the first thing the code does (`exitBegin`), the last thing it ought to do
-    (`exit`) — removes the own record (all of it), leaves the records of others alone; the operator is then gone or only
-    finishing, and no call of it sleeps towards a self-touch any more. A self-touch that was ALREADY ISSUED stays in flight
-    (`inflight` unchanged: `withdrawn_stays_partial`, F9). WHEN the withdrawal happens relative to the end of the handling
-    is the difference between the two labels (`exit_two_phase`, F7). -/
+/-- The withdrawal of a graceful stop — the LAST thing the stop does (`exitEnd`, or the one-step `exit`): the handling and
+    the peering observer are over by then — removes the own record (all of it), leaves the records of others alone; the
+    operator is then gone, no call of it sleeps towards a self-touch, and no self-touch of it is in flight (the observer's
+    request was awaited or cancelled BEFORE the withdrawal). -/
 theorem withdraw_on_exit {u : Int} {s s' : State} {i : Identity}
-    (h : step u s (.exitBegin i) = some s' ∨ step u s (.exit i) = some s') :
+    (h : step u s (.exitEnd i) = some s' ∨ step u s (.exit i) = some s') :
     (∀ r, (i, r) ∉ s'.status) ∧ (∀ j r, j ≠ i → ((j, r) ∈ s'.status ↔ (j, r) ∈ s.status)) ∧
-      ∃ o o', s.ops i = some o ∧ s'.ops i = some o' ∧ (o'.alive = false ∨ o'.exiting = true) ∧ o'.sleeping = false ∧
-        o'.inflight = o.inflight := by
-  have key : s'.status = s.status.erase i ∧ ∃ o o', s.ops i = some o ∧ s'.ops i = some o' ∧
-      (o'.alive = false ∨ o'.exiting = true) ∧ o'.sleeping = false ∧ o'.inflight = o.inflight := by
+      ∃ o', s'.ops i = some o' ∧ Withdrawn o' := by
+  have key : s'.status = s.status.erase i ∧ ∃ o', s'.ops i = some o' ∧ Withdrawn o' := by
     rcases h with h | h
-    · obtain ⟨o, ho, _, _, _, hst, hops, _⟩ := exitBegin_spec h
-      exact ⟨hst, o, { o with exiting := true, sleeping := false, nextKA := none }, ho, by rw [hops]; simp, Or.inr rfl, rfl, rfl⟩
-    · obtain ⟨o, ho, _, _, hst, hops, _⟩ := exit_spec h
-      exact ⟨hst, o, { o with alive := false, sleeping := false, nextKA := none }, ho, by rw [hops]; simp, Or.inl rfl, rfl, rfl⟩
+    · obtain ⟨o, _, _, _, _, hst, _, hops⟩ := exitEnd_spec h
+      exact ⟨hst, { o with alive := false, exiting := false, sleeping := false, nextKA := none, inflight := none },
+        by rw [hops]; simp, rfl, rfl, rfl⟩
+    · obtain ⟨o, _, _, _, hst, hops, _⟩ := exit_spec h
+      exact ⟨hst, { o with alive := false, sleeping := false, nextKA := none, inflight := none },
+        by rw [hops]; simp, rfl, rfl, rfl⟩
   obtain ⟨hst, hw⟩ := key
   refine ⟨?_, ?_, hw⟩
   · intro r hm
@@ -528,37 +616,10 @@ theorem own_record_not_cleaned {u : Int} {st : List (Identity × RawEntry)} {me 
     {now now2 : Int} {d : Decision} (h : decideEv u st me p true tg now now2 = .ok d) : me ∉ d.cleaned :=
   fun hm => ((dead_cleaned h me).mp hm).1 rfl
 
-/-! ## the withdrawal is permanent (was finding F2, repaired by f370f06) -/
-
-private theorem exit_not_exiting {u : Int} {s s1 : State} {a : Identity} {o : Op} (h : step u s (.exit a) = some s1)
-    (ho : s.ops a = some o) : o.exiting = false := by
-  simp only [step, ho] at h
-  by_cases hg : (o.alive && !o.exiting) = true
-  · exact (guard_iff.mp hg).2
-  · simp [hg] at h
-
-private theorem deliver_not_exiting {u : Int} {s s1 : State} {a : Identity} {o : Op} (h : step u s (.deliver a) = some s1)
-    (ho : s.ops a = some o) : o.exiting = false := by
-  simp only [step, ho] at h
-  by_cases hg : (o.alive && !o.exiting) = true
-  · exact (guard_iff.mp hg).2
-  · simp [hg] at h
-
-private theorem stale_not_exiting {u : Int} {s s1 : State} {a : Identity} {v : Status} {o : Op}
-    (h : step u s (.deliverStale a v) = some s1) (ho : s.ops a = some o) : o.exiting = false := by
-  simp only [step, ho] at h
-  by_cases hg : (o.alive && !o.exiting) = true
-  · exact (guard_iff.mp hg).2
-  · simp [hg] at h
-
-/-- what the induction carries: operator `i` is gone or only finishing, none of its calls sleeps, and a self-touch of it is
-    either not in flight or never lands in what follows -/
-def WCore (i : Identity) (ls : List Label) (s : State) : Prop :=
-  ∃ o, s.ops i = some o ∧ (o.alive = false ∨ o.exiting = true) ∧ o.sleeping = false ∧
-    (o.inflight = none ∨ ∀ l ∈ ls, l ≠ Label.land i)
+/-! ## the withdrawal is permanent (findings F2 - repaired by f370f06 - and F9 - repaired by 26a293c) -/
 
 theorem withdrawn_stays_aux {u : Int} {i : Identity} : ∀ (ls : List Label) (s s' : State),
-    WCore i ls s → (∀ r, (i, r) ∉ s.status) →
+    (∃ o, s.ops i = some o ∧ Withdrawn o) → (∀ r, (i, r) ∉ s.status) →
     (∀ l ∈ ls, (∀ p lt, l ≠ .start i p lt) ∧ (∀ r, l ≠ .foreign i (some r))) →
     run u s ls = some s' → ∀ r, (i, r) ∉ s'.status := by
   intro ls
@@ -572,71 +633,56 @@ theorem withdrawn_stays_aux {u : Int} {i : Identity} : ∀ (ls : List Label) (s 
     | some s1 =>
       simp only [hs] at h
       obtain ⟨hl1, hl2⟩ := hall l List.mem_cons_self
-      -- whether a self-touch of i is in flight does not change along the way; if one is, `land i` is not in the list
-      have hfl1 : ∀ onew : Op, onew.inflight = o.inflight → (onew.inflight = none ∨ ∀ l' ∈ rest, l' ≠ Label.land i) := by
-        intro onew e
-        rcases hfl with h0 | h0
-        · exact Or.inl (by rw [e]; exact h0)
-        · exact Or.inr (fun l' hl' => h0 l' (List.mem_cons_of_mem _ hl'))
       -- an operator j ≠ i that acts leaves i's entry and i's (absent) records alone
       have other : ∀ {j : Identity} {onew : Op}, i ≠ j →
           s1.ops = updOp s.ops j onew → (∀ r, (i, r) ∈ s1.status → (i, r) ∈ s.status) →
-          WCore i rest s1 ∧ ∀ r, (i, r) ∉ s1.status := by
+          (∃ o, s1.ops i = some o ∧ Withdrawn o) ∧ ∀ r, (i, r) ∉ s1.status := by
         intro j onew hji hops hsub
-        exact ⟨⟨o, by rw [hops, updOp_other _ _ hji]; exact ho, hoa, hos, hfl1 o rfl⟩, fun r hm => hn r (hsub r hm)⟩
-      -- a label guarded by "running and not exiting" is not i's
-      have notme : ∀ {j : Identity} {oj : Op}, s.ops j = some oj → oj.alive = true → oj.exiting = false → i ≠ j := by
-        intro j oj hj hja hje e
+        exact ⟨⟨o, by rw [hops, updOp_other _ _ hji]; exact ho, hoa, hos, hfl⟩, fun r hm => hn r (hsub r hm)⟩
+      -- a label guarded by "running" is not i's
+      have notme : ∀ {j : Identity} {oj : Op}, s.ops j = some oj → oj.alive = true → i ≠ j := by
+        intro j oj hj hja e
         subst e
         rw [ho] at hj; injection hj with hj; subst hj
-        rcases hoa with h | h
-        · rw [hja] at h; cases h
-        · rw [hje] at h; cases h
-      -- i itself ends (exitEnd / kill / lost exit in the middle): still withdrawn, status untouched
-      have ends : ∀ {j : Identity} {oj onew : Op}, s.ops j = some oj → s1.ops = updOp s.ops j onew →
-          onew.alive = false → onew.sleeping = false → onew.inflight = oj.inflight → s1.status = s.status →
-          WCore i rest s1 ∧ ∀ r, (i, r) ∉ s1.status := by
-        intro j oj onew hj hops h1 h2 h3 hst
-        by_cases hji : i = j
-        · subst hji
-          rw [ho] at hj; injection hj with hj; subst hj
-          exact ⟨⟨onew, by rw [hops]; simp, Or.inl h1, h2, hfl1 onew h3⟩, fun r hm => hn r (by rw [hst] at hm; exact hm)⟩
-        · exact other hji hops (fun r hm => by rw [hst] at hm; exact hm)
+        rw [hja] at hoa; cases hoa
       have same : s1.ops = s.ops → (∀ r, (i, r) ∈ s1.status → (i, r) ∈ s.status) →
-          WCore i rest s1 ∧ ∀ r, (i, r) ∉ s1.status := by
+          (∃ o, s1.ops i = some o ∧ Withdrawn o) ∧ ∀ r, (i, r) ∉ s1.status := by
         intro hops hsub
-        exact ⟨⟨o, by rw [hops]; exact ho, hoa, hos, hfl1 o rfl⟩, fun r hm => hn r (hsub r hm)⟩
-      have key : WCore i rest s1 ∧ ∀ r, (i, r) ∉ s1.status := by
+        exact ⟨⟨o, by rw [hops]; exact ho, hoa, hos, hfl⟩, fun r hm => hn r (hsub r hm)⟩
+      have key : (∃ o, s1.ops i = some o ∧ Withdrawn o) ∧ ∀ r, (i, r) ∉ s1.status := by
         cases l with
         | start j p lt =>
           obtain ⟨_, hst, _, _, hops⟩ := start_spec hs
           have hji : i ≠ j := fun e => hl1 p lt (by rw [e])
           exact other hji hops (fun r hm => by rw [hst] at hm; exact hm)
         | keepalive j lag =>
-          obtain ⟨oj, hj, hja, hje, _, _, hst, hops⟩ := keepalive_spec hs
-          have hji := notme hj hja hje
+          obtain ⟨oj, hj, hja, _, _, hst, hops⟩ := keepalive_spec hs
+          have hji := notme hj hja
           exact other hji hops (fun r hm => by rw [hst] at hm; exact (mem_patch_other (Ne.symm hji)).mp hm)
         | exit j =>
           obtain ⟨oj, hj, hja, _, hst, hops, _⟩ := exit_spec hs
-          exact other (notme hj hja (exit_not_exiting hs hj)) hops (fun r hm => by rw [hst] at hm; exact (mem_erase.mp hm).1)
+          exact other (notme hj hja) hops (fun r hm => by rw [hst] at hm; exact (mem_erase.mp hm).1)
         | exitLost j =>
-          obtain ⟨oj, hj, _, _, hst, hops, _⟩ := exitLost_spec hs
-          exact ends hj hops rfl rfl rfl hst
+          obtain ⟨oj, hj, hja, _, hst, hops, _⟩ := exitLost_spec hs
+          exact other (notme hj hja) hops (fun r hm => by rw [hst] at hm; exact hm)
         | exitBegin j =>
-          obtain ⟨oj, hj, hja, hje, _, hst, hops, _⟩ := exitBegin_spec hs
-          exact other (notme hj hja hje) hops (fun r hm => by rw [hst] at hm; exact (mem_erase.mp hm).1)
+          obtain ⟨oj, hj, hja, _, _, hst, _, hops⟩ := exitBegin_spec hs
+          exact other (notme hj hja) hops (fun r hm => by rw [hst] at hm; exact hm)
         | exitEnd j =>
-          obtain ⟨oj, hj, _, _, _, hst, _, hops⟩ := exitEnd_spec hs
-          exact ends hj hops rfl rfl rfl hst
+          obtain ⟨oj, hj, hja, _, _, hst, _, hops⟩ := exitEnd_spec hs
+          exact other (notme hj hja) hops (fun r hm => by rw [hst] at hm; exact (mem_erase.mp hm).1)
         | kill j =>
-          obtain ⟨oj, hj, _, _, hst, hops, _⟩ := kill_spec hs
-          exact ends hj hops rfl rfl rfl hst
+          obtain ⟨oj, hj, hja, _, hst, hops, _⟩ := kill_spec hs
+          exact other (notme hj hja) hops (fun r hm => by rw [hst] at hm; exact hm)
         | deliver j =>
           obtain ⟨oj, hj, hja, _, hst, _, _, hops⟩ := deliver_spec hs
-          exact other (notme hj hja (deliver_not_exiting hs hj)) hops (fun r hm => by rw [hst] at hm; exact (List.mem_filter.mp hm).1)
-        | deliverStale j view =>
-          obtain ⟨oj, hj, hja, _, hst, _, _, hops⟩ := stale_spec hs
-          exact other (notme hj hja (stale_not_exiting hs hj)) hops (fun r hm => by rw [hst] at hm; exact (mem_eraseAll.mp hm).1)
+          exact other (notme hj hja) hops (fun r hm => by rw [hst] at hm; exact (List.mem_filter.mp hm).1)
+        | deliverStale j view vv =>
+          obtain ⟨oj, _, hj, hja, _, _, hst, _, _, hops, _⟩ := stale_spec hs
+          refine other (notme hj hja) hops (fun r hm => ?_)
+          rcases hst with e | e
+          · rw [e] at hm; exact hm
+          · rw [e] at hm; exact (List.mem_filter.mp hm).1
         | tick d =>
           simp only [step, Option.some.injEq] at hs; subst hs
           exact same rfl (fun r hm => hm)
@@ -670,64 +716,65 @@ theorem withdrawn_stays_aux {u : Int} {i : Identity} : ∀ (ls : List Label) (s 
           have hji : i ≠ j := by
             intro e; subst e
             rw [ho] at hj; injection hj with hj; subst hj
-            rcases hfl with h0 | h0
-            · rw [h0] at hjt; cases hjt
-            · exact h0 _ List.mem_cons_self rfl
+            rw [hfl] at hjt; cases hjt
           exact other hji hops (fun r hm => by rw [hst] at hm; exact (mem_patch_other (Ne.symm hji)).mp hm)
       exact ih s1 s' key.1 key.2 (fun l hl => hall l (List.mem_cons_of_mem _ hl)) h
 
-/- Full clause: "removes it on graceful exit" — for good, whatever is in flight. FALSE of the code when a self-touch of the
-   exiting operator is in flight at the withdrawal: `selftouch_in_flight_witness` (F9). -/
-/-- PARTIAL (guard: `Withdrawn` includes "no self-touch of the operator is in flight"). An operator that has withdrawn (in
-    the order of the code — record first, handlers last — as well as in the proper order) and has no record stays without a
-    record, whatever else happens in any order — old views, lost exits, late landings of OTHERS' touches, its own `exitEnd`,
-    a kill in the middle of the exit — as long as nobody starts it again or writes a record under its name. -/
-theorem withdrawn_stays_from_partial {u : Int} {i : Identity} (ls : List Label) (s s' : State)
+/-- FULL. An operator that has withdrawn and has no record stays without a record, whatever else happens in any order —
+    views of any age processed by anybody, lost exits, late landings of OTHERS' touches, kills — as long as nobody starts
+    it again or writes a record under its name. -/
+theorem withdrawn_stays_from {u : Int} {i : Identity} (ls : List Label) (s s' : State)
     (hw : ∃ o, s.ops i = some o ∧ Withdrawn o) (hn : ∀ r, (i, r) ∉ s.status)
     (hall : ∀ l ∈ ls, (∀ p lt, l ≠ .start i p lt) ∧ (∀ r, l ≠ .foreign i (some r)))
-    (h : run u s ls = some s') : ∀ r, (i, r) ∉ s'.status := by
-  obtain ⟨o, ho, h1, h2, h3⟩ := hw
-  exact withdrawn_stays_aux ls s s' ⟨o, ho, h1, h2, Or.inl h3⟩ hn hall h
+    (h : run u s ls = some s') : ∀ r, (i, r) ∉ s'.status :=
+  withdrawn_stays_aux ls s s' hw hn hall h
 
-/-- PARTIAL (guard `hin`: no self-touch of the operator is in flight when it withdraws). The withdrawal of a graceful stop
-    is permanent — in the order the code has (`exitBegin`: the record goes first, the operator's handlers still run) and in
-    the proper order (`exit`): from the withdrawal on, through anything the other operators, the clock and the operator's own
-    end (`exitEnd`, a kill) do, the record never comes back. -/
-theorem withdrawn_stays_partial {u : Int} {i : Identity} {s s1 s' : State}
-    (h1 : step u s (.exitBegin i) = some s1 ∨ step u s (.exit i) = some s1)
-    (hin : ∀ o, s.ops i = some o → o.inflight = none) (ls : List Label)
+/- Full clause: "removes it on graceful exit" — for good, whatever was in flight. -/
+/-- FULL (no guard: the "no self-touch in flight" hypothesis of the former `withdrawn_stays_partial` is now what the
+    stop order guarantees — F9 was its negation). The withdrawal of a graceful stop is permanent: from the withdrawal on
+    (`exitEnd`, or the one-step `exit`), through anything the other operators and the clock do, the record never comes back. -/
+theorem withdrawn_stays {u : Int} {i : Identity} {s s1 s' : State}
+    (h1 : step u s (.exitEnd i) = some s1 ∨ step u s (.exit i) = some s1) (ls : List Label)
     (hall : ∀ l ∈ ls, (∀ p lt, l ≠ .start i p lt) ∧ (∀ r, l ≠ .foreign i (some r)))
     (h2 : run u s1 ls = some s') : ∀ r, (i, r) ∉ s'.status := by
-  obtain ⟨hn, _, o, o', ho, ho', ha, hs, hf⟩ := withdraw_on_exit h1
-  exact withdrawn_stays_from_partial ls s1 s' ⟨o', ho', ha, hs, by rw [hf]; exact hin o ho⟩ hn hall h2
+  obtain ⟨hn, _, hw⟩ := withdraw_on_exit h1
+  exact withdrawn_stays_from ls s1 s' hw hn hall h2
 
-/-- F9 in Lean (the residue of the repaired F2; audit N3). B (paused by A) sleeps towards the deadline of the killed A's
-    record. At that tick the sleep ends and the call ISSUES its self-touch (`wakeIssue`); in the same tick B is asked to stop:
-    the pinger withdraws the record (`exitBegin`) while the self-touch is still in flight; the API applies the self-touch
-    AFTER the withdrawal (`land`; two concurrent requests have no order). B finishes (`exitEnd`): B is gone, its record is
-    there, live for a whole lifetime — every lower-priority operator stays paused for nobody. The same with the proper
-    order `exit` (second conjunct): the guard of `withdrawn_stays_partial` is needed in both. Replayed on the real code:
-    corpus/C13/F9.json. -/
-theorem selftouch_in_flight_witness :
+set_option synthInstance.maxSize 2048 in
+/-- F9's schedule in Lean (repaired by 26a293c). B (paused by A) sleeps towards the deadline of the killed A's record. At
+    that tick the sleep ends and the call ISSUES its self-touch (`wakeIssue`); in the same tick B is asked to stop
+    (`exitBegin`): the observer is stopped FIRST, its request is awaited - it lands (`land`) - and only then the pinger
+    withdraws (`exitEnd`): B is gone and has no record (first conjunct; it used to have one, live for a whole lifetime).
+    If the request is cancelled instead, it is dropped with the observer (`exitEnd` with the self-touch still in flight:
+    second conjunct); it cannot land after the withdrawal (third: not a run; nor with the one-step `exit`: fourth).
+    Replayed on the real code: corpus/C13/F9.json (must pass). -/
+theorem selftouch_before_withdrawal :
     (run 64 init [.start "A" 100 2, .start "B" 10 10, .keepalive "A" 0, .keepalive "B" 0, .deliver "B", .kill "A", .expire "A",
                   .wakeIssue "B", .exitBegin "B", .land "B", .exitEnd "B"]).map
-        (fun s => (s.now, (s.ops "B").map (fun o => (o.alive, o.exiting)), s.status))
-      = some (128, some (false, false), [("A", ⟨100, 2, 0⟩), ("B", ⟨10, 10, 128⟩)]) ∧
+        (fun s => (s.now, (s.ops "B").map (fun o => (o.alive, o.exiting, o.inflight)), s.status))
+      = some (128, some (false, false, none), [("A", ⟨100, 2, 0⟩)]) ∧
     (run 64 init [.start "A" 100 2, .start "B" 10 10, .keepalive "A" 0, .keepalive "B" 0, .deliver "B", .kill "A", .expire "A",
-                  .wakeIssue "B", .exit "B", .land "B"]).map
-        (fun s => ((s.ops "B").map (·.alive), s.status))
-      = some (some false, [("A", ⟨100, 2, 0⟩), ("B", ⟨10, 10, 128⟩)]) := by decide
+                  .wakeIssue "B", .exitBegin "B", .exitEnd "B"]).map
+        (fun s => ((s.ops "B").map (fun o => (o.alive, o.inflight)), s.status))
+      = some (some (false, none), [("A", ⟨100, 2, 0⟩)]) ∧
+    (run 64 init [.start "A" 100 2, .start "B" 10 10, .keepalive "A" 0, .keepalive "B" 0, .deliver "B", .kill "A", .expire "A",
+                  .wakeIssue "B", .exitBegin "B", .exitEnd "B", .land "B"]).isSome = false ∧
+    (run 64 init [.start "A" 100 2, .start "B" 10 10, .keepalive "A" 0, .keepalive "B" 0, .deliver "B", .kill "A", .expire "A",
+                  .wakeIssue "B", .exit "B", .land "B"]).isSome = false := by decide
 
 /-! ## failover after a graceful exit -/
 
-/- Full clause: "… also after the active one exits" — for every delivery timing, and in the order the code has (FALSE there:
-   `exit_overlap_two_active_witness`, F7). -/
-/-- PARTIAL (guards: the proper exit order `exit` — with `exitBegin … exitEnd` see F7 —; current or benign views; own records
-    fresh at the end: `hown`). The active (or any other) operator `a` exits gracefully; ANY interleaving `mid` of passing
-    time, keep-alives, waking self-touches and deliveries of the remaining operators may follow; once every remaining
-    running operator has then processed the status, exactly the top one of them is active, `a` is gone and has no record. -/
-theorem failover_exit_partial {u : Int} {s s1 s2 s3 : State} {a : Identity} (hg : Good u s) (hsa : SleepAlive s)
-    (h1 : step u s (.exit a) = some s1)
+/- Full clause: "… also after the active one exits" — for every delivery timing. -/
+/-- PARTIAL (guard: the last view every remaining operator processes is the current status — `ls` —; hypothesis `hown`:
+    their own records are fresh at the end). The active (or any other) operator `a` is asked to stop (`exitBegin`); during
+    the exit window `win` — `a` finishing its handlers, its pinger renewing the record — and after the withdrawal
+    (`exitEnd`) — `mid` — ANY interleaving of passing time, keep-alives, waking self-touches and deliveries of views of ANY
+    age may happen; once every remaining running operator has then processed the current status, exactly the top one of
+    them is active, `a` is gone and has no record. (`win = []`: the one-step `exit`, by `exit_two_phase`.) -/
+theorem failover_exit_partial {u : Int} {s s0 sw s1 s2 s3 : State} {a : Identity} (hg : Good u s) (hsa : SleepAlive s)
+    (h0 : step u s (.exitBegin a) = some s0)
+    (win : List Label) (hqw : ∀ l ∈ win, Quiet l) (hw : run u s0 win = some sw)
+    (h1 : step u sw (.exitEnd a) = some s1)
     (mid : List Label) (hq : ∀ l ∈ mid, Quiet l) (h2 : run u s1 mid = some s2)
     (hown : ∀ i o, s2.ops i = some o → o.alive = true →
       ∃ r, (i, r) ∈ s2.status ∧ r.priority = o.prio ∧ r.dead u s2.now = false)
@@ -735,29 +782,46 @@ theorem failover_exit_partial {u : Int} {s s1 s2 s3 : State} {a : Identity} (hg 
     (hcov : ∀ i op, s2.ops i = some op → op.alive = true → Label.deliver i ∈ ls)
     (h3 : run u s2 ls = some s3) :
     ExactlyTop s3 ∧ (∀ op, s3.ops a = some op → op.alive = false) ∧ ∀ r, (a, r) ∉ s3.status := by
-  have hg1 := good_after_exit hg h1
-  have hsa1 := sleepAlive_step hsa h1
-  obtain ⟨htop, _⟩ := settle_partial hg1 hsa1 mid hq h2 hown ls hdel hcov h3
-  obtain ⟨_, _, hso12⟩ := quiet_noGhost mid s1 s2 hq hg1.noGhost hsa1 h2
+  -- the stop is requested: nothing changes but a's flags
+  obtain ⟨o, ho, _, _, hnow0, hst0, _, hops0⟩ := exitBegin_spec h0
+  have hso0 : SameOps s s0 := sameOps_upd ho hops0 rfl rfl
+  have hng0 := noGhost_transfer hg.noGhost hnow0 (fun j r hm => by rw [hst0] at hm; exact hm) (by
+    intro j op hj hja _
+    rcases hso0 j with ⟨x, _⟩ | ⟨x, x', hx, hx', hp, hal⟩
+    · rw [x] at hj; cases hj
+    · rw [hx] at hj; injection hj with e; subst e; exact ⟨x', hx', by rw [hal]; exact hja, hp⟩)
+  have hsa0 := sleepAlive_step hsa h0
+  -- the exit window
+  obtain ⟨hngw, hsaw, hsow⟩ := quiet_noGhost win s0 sw hqw hng0 hsa0 hw
+  have hdistw := distinct_sameOps (sameOps_trans hso0 hsow) hg.distinct
+  -- the withdrawal
+  obtain ⟨ow, how, _, _, hnow1, hst1, _, hops1⟩ := exitEnd_spec h1
+  have hng1 := noGhost_transfer hngw hnow1 (fun j r hm => by rw [hst1] at hm; exact (mem_erase.mp hm).1) (by
+    intro j op hj hja ⟨r, hm⟩
+    have hja' : j ≠ a := by rw [hst1] at hm; exact (mem_erase.mp hm).2
+    exact ⟨op, by rw [hops1, updOp_other _ _ hja']; exact hj, hja, rfl⟩)
+  have hsa1 := sleepAlive_step hsaw h1
+  have hdist1 : ∀ i j oi oj, s1.ops i = some oi → s1.ops j = some oj → oi.alive = true → oj.alive = true →
+      oi.prio = oj.prio → i = j := by
+    intro i j oi oj hi hj hai haj hp
+    rw [hops1] at hi hj
+    have hia : i ≠ a := by intro e; subst e; simp at hi; subst hi; simp at hai
+    have hja : j ≠ a := by intro e; subst e; simp at hj; subst hj; simp at haj
+    rw [updOp_other _ _ hia] at hi
+    rw [updOp_other _ _ hja] at hj
+    exact hdistw i j oi oj hi hj hai haj hp
+  -- after it
+  obtain ⟨hng2, _, hso12⟩ := quiet_noGhost mid s1 s2 hq hng1 hsa1 h2
+  obtain ⟨htop, _⟩ := settle ⟨hown, hng2, distinct_sameOps hso12 hdist1⟩ ls hdel hcov h3
   obtain ⟨_, _, hso23, _⟩ := run_delivers ls s2 s3 hdel h3
-  obtain ⟨o, ho, _, _, _, hops, _⟩ := exit_spec h1
   refine ⟨htop, ?_, ?_⟩
   · intro op hop
     rcases sameOps_trans hso12 hso23 a with ⟨_, h⟩ | ⟨x, x', hx, hx', _, hal⟩
     · rw [h] at hop; cases hop
     · rw [hx'] at hop; injection hop with hop; subst hop
-      rw [hops] at hx; simp at hx; subst hx
+      rw [hops1] at hx; simp at hx; subst hx
       rw [hal]
-  · -- (whether or not a self-touch of `a` is in flight: nothing lands in a `Quiet` interleaving)
-    obtain ⟨hn, _, o0, o', _, ho', hae, hsl, _⟩ := withdraw_on_exit (Or.inr h1)
-    have hnoland : ∀ l ∈ mid ++ ls, l ≠ Label.land a := by
-      intro l hl
-      rcases List.mem_append.mp hl with hm | hm
-      · have := hq l hm
-        cases l <;> simp [Quiet] at this <;> simp
-      · obtain ⟨i, rfl⟩ := hdel l hm
-        simp
-    refine withdrawn_stays_aux (mid ++ ls) s1 s3 ⟨o', ho', hae, hsl, Or.inr hnoland⟩ hn ?_ (by rw [run_append, h2]; exact h3)
+  · refine withdrawn_stays (Or.inl h1) (mid ++ ls) ?_ (by rw [run_append, h2]; exact h3)
     intro l hl
     rcases List.mem_append.mp hl with hm | hm
     · have := hq l hm
@@ -765,13 +829,48 @@ theorem failover_exit_partial {u : Int} {s s1 s2 s3 : State} {a : Identity} (hg 
     · obtain ⟨i, rfl⟩ := hdel l hm
       exact ⟨fun _ _ => by simp, fun _ => by simp⟩
 
+/-! ## cleanup of dead records: always possible, not inevitable -/
+
+/-- "Expired records of others are cleaned up": whenever a running operator processes the CURRENT version of the peering
+    object, every dead record of anybody else is gone afterwards (its own expired one is for its own pinger to overwrite). -/
+theorem cleanup_possible {u : Int} {s : State} {i : Identity} {o : Op} (ho : s.ops i = some o) (ha : o.alive = true)
+    (he : o.exiting = false) :
+    ∃ s', step u s (.deliver i) = some s' ∧ ∀ j r, (j, r) ∈ s'.status → r.dead u s'.now = false ∨ j = i := by
+  have hstep : ∃ s', step u s (.deliver i) = some s' := by simp only [step, ho, ha, he]; exact ⟨_, rfl⟩
+  obtain ⟨s', h⟩ := hstep
+  refine ⟨s', h, ?_⟩
+  obtain ⟨_, _, _, hnow, _⟩ := deliver_spec h
+  intro j r hm
+  rw [hnow]
+  exact ((deliver_cleans h j r).mp hm).2
+
+set_option synthInstance.maxSize 2048 in
+/-- … but since 054d47d only then: a reader that never gets to see the current version never cleans. G's record (a ghost,
+    lifetime 1 s) is dead from clock 64 on. A is alone and renews every second; every event reaches A one version late
+    (it processes version n when the object is already at n+1 - e.g. its own renewal is on its way): each of its cleans is
+    refused, the dead record is still there after any number of rounds (here three: clock 256). One delivery of the current
+    version removes it (second conjunct). With the unconditional clean of before 054d47d the first round would have
+    removed it. Whether the real code can be kept in that regime: see finding F10 / `cleanup` in harness/props/c13.py. -/
+theorem cleanup_starved_witness :
+    (run 64 init [.start "A" 100 3, .foreign "G" (some ⟨500, 1, 0⟩), .keepalive "A" 0, .tick 64,
+                  .keepalive "A" 0, .deliverStale "A" [("G", ⟨500, 1, 0⟩), ("A", ⟨100, 3, 0⟩)] 2, .tick 64,
+                  .keepalive "A" 0, .deliverStale "A" [("G", ⟨500, 1, 0⟩), ("A", ⟨100, 3, 64⟩)] 3, .tick 64,
+                  .keepalive "A" 0, .deliverStale "A" [("G", ⟨500, 1, 0⟩), ("A", ⟨100, 3, 128⟩)] 4]).map
+        (fun s => (s.now, s.ver, s.status.map (·.1), (s.ops "A").map (·.paused)))
+      = some (192, 5, ["G", "A"], some false) ∧
+    (run 64 init [.start "A" 100 3, .foreign "G" (some ⟨500, 1, 0⟩), .keepalive "A" 0, .tick 64,
+                  .keepalive "A" 0, .deliverStale "A" [("G", ⟨500, 1, 0⟩), ("A", ⟨100, 3, 0⟩)] 2, .tick 64,
+                  .keepalive "A" 0, .deliverStale "A" [("G", ⟨500, 1, 0⟩), ("A", ⟨100, 3, 64⟩)] 3, .tick 64,
+                  .keepalive "A" 0, .deliverStale "A" [("G", ⟨500, 1, 0⟩), ("A", ⟨100, 3, 128⟩)] 4, .deliver "A"]).map
+        (fun s => s.status.map (·.1)) = some ["A"] := by decide
+
 /-! ## convergence is always possible -/
 
 /-- From ANY state — reachable or not, whatever old views, ghosts, lost exits and expired records it contains — with the
     running operators configured with `lifetime ≥ 1` and distinct priorities (`ids` merely names them), there is a
     schedule after which the operators see each other and exactly the top one is active: let every record that is there
     expire, let every running operator touch, let every running operator process the status. (Possibility, not
-    inevitability: nothing forces the environment to be that kind — see `stale_view_two_active_witness`.) -/
+    inevitability: nothing forces the environment to be that kind — see `stale_verdict_two_active_witness`.) -/
 theorem convergence_possible {u : Int} {s : State} (hu : 0 < u) (ids : List Identity)
     (hcov : ∀ i o, s.ops i = some o → o.alive = true → i ∈ ids)
     (hL : ∀ i o, s.ops i = some o → o.alive = true → 1 ≤ o.lifetime ∧ o.exiting = false)
@@ -875,7 +974,7 @@ private def opB : Op := { prio := 10, lifetime := 8, alive := true, paused := tr
 
 /-- unfold a concrete run into its explicit end state -/
 local macro "unfold_run" h:ident : tactic => `(tactic|
-  simp [exStable, exRun, run, step, init, updOp, touchVal, Rec.dead, Rec.deadline, Status.patch, Status.set, Status.erase,
+  simp [exStable, exRun, run, step, deliverNow, init, updOp, touchVal, Rec.dead, Rec.deadline, Status.patch, Status.set, Status.erase,
     Status.eraseAll, marginT, margin, decideCore, Status.peers, Rec.toPeer, livePeers, deadPeers, prioPeers, samePeers,
     Peer.isDead, Peer.deadline, minList] at $h:ident)
 
@@ -926,71 +1025,79 @@ example : ∃ s, exStable = some s ∧ Reachable 64 s ∧ Timely 64 2 s ∧ Stab
     exact ⟨s, rfl, hr, ht, exStable_stable s h, exactly_top_partial hr (exStable_stable s h),
       fun i o k ho ha hk => own_record_fresh (by decide) (by decide) ht ho ha hk⟩
 
-set_option synthInstance.maxSize 1024 in
-/-- `failover_exit_partial` (hence `settle_partial`) instantiated with a `mid` that is not empty: from the stable state A
-    exits gracefully; B processes the status (and resumes), 2 s pass, B renews, another second passes; B's own record is
-    fresh; B processes the status once more: exactly B is active, A is gone without a record. -/
-example : ∃ s s1 s2 s3, exStable = some s ∧ step 64 s (.exit "A") = some s1 ∧
-    run 64 s1 [.deliver "B", .tick 128, .keepalive "B" 1, .tick 64] = some s2 ∧ run 64 s2 [.deliver "B"] = some s3 ∧
+private def exWin : List Label := [.keepalive "A" 1, .deliver "B", .tick 64]
+private def exMid : List Label := [.deliver "B", .tick 128, .keepalive "B" 1, .tick 64]
+
+set_option synthInstance.maxSize 2048 in
+/-- `failover_exit_partial` (hence `settle_partial`) instantiated with a window and a `mid` that are not empty: from the
+    stable state A is asked to stop; while it finishes, its pinger renews its record, B processes the status and STAYS paused
+    (the successor does not resume in the exit window: F7 is gone), a second passes; A withdraws; B processes the status (and
+    resumes), 2 s pass, B renews, another second passes; B's own record is fresh; B processes the status once more: exactly B
+    is active, A is gone without a record. -/
+example : ∃ s s0 sw s1 s2 s3, exStable = some s ∧ step 64 s (.exitBegin "A") = some s0 ∧ run 64 s0 exWin = some sw ∧
+    (sw.ops "B").map (·.paused) = some true ∧ step 64 sw (.exitEnd "A") = some s1 ∧
+    run 64 s1 exMid = some s2 ∧ run 64 s2 [.deliver "B"] = some s3 ∧
     ExactlyTop s3 ∧ (s3.ops "B").map (·.paused) = some false ∧ (∀ op, s3.ops "A" = some op → op.alive = false) ∧
     ∀ r, ("A", r) ∉ s3.status := by
-  cases h : exStable with
-  | none => exact absurd h (by decide)
-  | some s =>
-    obtain ⟨_, _, _, _, _, hops⟩ := exStable_shape s h
-    have hst := exStable_stable s h
-    have hr : Reachable 64 s := reachable_run exRun init s Reachable.init h
-    let mid : List Label := [.deliver "B", .tick 128, .keepalive "B" 1, .tick 64]
-    have tot : (exStable.bind (fun s => (step 64 s (.exit "A")).bind (fun s1 => (run 64 s1 mid).bind (fun s2 =>
-        (run 64 s2 [.deliver "B"]).map (fun s3 => (s3.ops "B").map (·.paused)))))) = some (some false) := by decide
-    have tot2 : (exStable.bind (fun s => (step 64 s (.exit "A")).bind (fun s1 => (run 64 s1 mid).map (fun s2 =>
-          (s2.now, s2.status, (s2.ops "A").map (·.alive), (s2.ops "B").map (fun o => (o.alive, o.prio))))))) =
-        some (192, [("B", ⟨10, 8, 127⟩)], some false, some (true, 10)) := by decide
-    rw [h] at tot tot2
-    simp only [Option.bind_some] at tot tot2
-    cases h1 : step 64 s (.exit "A") with
-    | none => simp [h1] at tot
-    | some s1 =>
-      simp only [h1, Option.bind_some] at tot tot2
-      cases h2 : run 64 s1 mid with
-      | none => simp [h2] at tot
-      | some s2 =>
-        simp only [h2, Option.bind_some, Option.map_some, Option.some.injEq, Prod.mk.injEq] at tot tot2
-        cases h3 : run 64 s2 [.deliver "B"] with
-        | none => simp [h3] at tot
-        | some s3 =>
-          simp only [h3, Option.map_some, Option.some.injEq] at tot
-          obtain ⟨hnow, hstat, hA2, hB2⟩ := tot2
-          have hn2 : ∀ i, i ≠ "A" → i ≠ "B" → s2.ops i = none := by
-            intro i hA hB
-            have : s.ops i = none := by
-              cases hi : s.ops i with
-              | none => rfl
-              | some o => rcases hops i o hi with ⟨e, _⟩ | ⟨e, _⟩ <;> contradiction
-            have h12 : run 64 s (.exit "A" :: mid) = some s2 := by simp only [run, h1]; exact h2
-            exact ops_none_of_not_started _ s s2 this (by intro l hl p L e; rw [e] at hl; simp [mid] at hl) h12
-          have res := failover_exit_partial (a := "A") hst.good (sleepAlive_reachable hr) h1 mid
-            (by intro l hl; simp only [mid, List.mem_cons, List.mem_nil_iff, or_false] at hl
-                rcases hl with rfl | rfl | rfl | rfl <;> simp [Quiet])
-            h2
-            (by
-              intro i o hi ha
-              by_cases hiA : i = "A"
-              · subst hiA; rw [hi] at hA2; simp at hA2; rw [hA2] at ha; cases ha
-              · by_cases hiB : i = "B"
-                · subst hiB; rw [hi] at hB2; simp at hB2
-                  exact ⟨⟨10, 8, 127⟩, by rw [hstat]; simp, by simp [hB2.2], by rw [hnow]; decide⟩
-                · rw [hn2 i hiA hiB] at hi; cases hi)
-            [.deliver "B"] (fun l hl => by simp at hl; exact ⟨"B", hl⟩)
-            (by
-              intro i o hi ha
-              by_cases hiA : i = "A"
-              · subst hiA; rw [hi] at hA2; simp at hA2; rw [hA2] at ha; cases ha
-              · by_cases hiB : i = "B"
-                · subst hiB; simp
-                · rw [hn2 i hiA hiB] at hi; cases hi)
-            h3
-          exact ⟨s, s1, s2, s3, rfl, h1, h2, h3, res.1, tot, res.2.1, res.2.2⟩
+  have hall : (run 64 init (exRun ++ ([.exitBegin "A"] ++ (exWin ++ ([.exitEnd "A"] ++ (exMid ++ [.deliver "B"])))))).isSome = true := by decide
+  have fw : (run 64 init (exRun ++ ([.exitBegin "A"] ++ exWin))).map (fun s => (s.ops "B").map (·.paused)) = some (some true) := by decide
+  have f2 : (run 64 init (exRun ++ ([.exitBegin "A"] ++ (exWin ++ ([.exitEnd "A"] ++ exMid))))).map (fun s2 =>
+      (s2.now, s2.status, (s2.ops "A").map (·.alive), (s2.ops "B").map (fun o => (o.alive, o.prio)))) =
+      some (256, [("B", ⟨10, 8, 191⟩)], some false, some (true, 10)) := by decide
+  have f3 : (run 64 init (exRun ++ ([.exitBegin "A"] ++ (exWin ++ ([.exitEnd "A"] ++ (exMid ++ [.deliver "B"])))))).map
+      (fun s => (s.ops "B").map (·.paused)) = some (some false) := by decide
+  cases hT : run 64 init (exRun ++ ([.exitBegin "A"] ++ (exWin ++ ([.exitEnd "A"] ++ (exMid ++ [.deliver "B"]))))) with
+  | none => rw [hT] at hall; cases hall
+  | some s3 =>
+    obtain ⟨s, hs, r1⟩ := run_append_some hT
+    obtain ⟨s0, h0, r2⟩ := run_append_some r1
+    obtain ⟨sw, hw, r3⟩ := run_append_some r2
+    obtain ⟨s1, h1, r4⟩ := run_append_some r3
+    obtain ⟨s2, h2, h3⟩ := run_append_some r4
+    have h0' := run_single h0
+    have h1' := run_single h1
+    have hsw : run 64 init (exRun ++ ([.exitBegin "A"] ++ exWin)) = some sw := by
+      rw [run_append, hs]; simp only [Option.bind_some]; rw [run_append, h0]; exact hw
+    have hs2 : run 64 init (exRun ++ ([.exitBegin "A"] ++ (exWin ++ ([.exitEnd "A"] ++ exMid)))) = some s2 := by
+      rw [run_append, hs]; simp only [Option.bind_some]; rw [run_append, h0]; simp only [Option.bind_some]
+      rw [run_append, hw]; simp only [Option.bind_some]; rw [run_append, h1]; exact h2
+    rw [hsw] at fw; rw [hs2] at f2; rw [hT] at f3
+    simp only [Option.map_some, Option.some.injEq, Prod.mk.injEq] at fw f2 f3
+    obtain ⟨hnow, hstat, hA2, hB2⟩ := f2
+    have hst := exStable_stable s hs
+    have hr : Reachable 64 s := reachable_run exRun init s Reachable.init hs
+    have hn2 : ∀ i, i ≠ "A" → i ≠ "B" → s2.ops i = none := by
+      intro i hA hB
+      refine ops_none_of_not_started _ init s2 rfl ?_ hs2
+      intro l hl p L e
+      rw [e] at hl
+      simp [exRun, exWin, exMid] at hl
+      rcases hl with ⟨rfl, _⟩ | ⟨rfl, _⟩ <;> contradiction
+    have res := failover_exit_partial (a := "A") hst.good (sleepAlive_reachable hr) h0' exWin
+      (by intro l hl; simp only [exWin, List.mem_cons, List.mem_nil_iff, or_false] at hl
+          rcases hl with rfl | rfl | rfl <;> simp [Quiet])
+      hw h1' exMid
+      (by intro l hl; simp only [exMid, List.mem_cons, List.mem_nil_iff, or_false] at hl
+          rcases hl with rfl | rfl | rfl | rfl <;> simp [Quiet])
+      h2
+      (by
+        intro i o hi ha
+        by_cases hiA : i = "A"
+        · subst hiA; rw [hi] at hA2; simp at hA2; rw [hA2] at ha; cases ha
+        · by_cases hiB : i = "B"
+          · subst hiB; rw [hi] at hB2; simp at hB2
+            exact ⟨⟨10, 8, 191⟩, by rw [hstat]; simp, by simp [hB2.2], by rw [hnow]; decide⟩
+          · rw [hn2 i hiA hiB] at hi; cases hi)
+      [.deliver "B"] (fun l hl => by simp at hl; exact ⟨"B", hl⟩)
+      (by
+        intro i o hi ha
+        by_cases hiA : i = "A"
+        · subst hiA; rw [hi] at hA2; simp at hA2; rw [hA2] at ha; cases ha
+        · by_cases hiB : i = "B"
+          · subst hiB; simp
+          · rw [hn2 i hiA hiB] at hi; cases hi)
+      h3
+    exact ⟨s, s0, sw, s1, s2, s3, hs, h0', hw, fw, h1', h2, h3, res.1, f3, res.2.1, res.2.2⟩
 
 /-- `resume_after_expiry` instantiated: A (top) is killed while B's call sleeps towards A's deadline; every peer blocking B
     is a record of A; after `expire "A"` the call wakes, its touch lands one tick late, the event is delivered, B is active. -/
@@ -1022,18 +1129,18 @@ example : ∃ s s1 s2 s3 o3, run 64 init [.start "A" 100 2, .start "B" 10 10, .k
         · exact absurd rfl hj) h1
       exact ⟨s, s1, s2, s3, o3, rfl, h1, h2, h3, h4, h5, h6⟩
 
-/-- `convergence_possible` instantiated on the bad end state of `stale_view_two_active_witness` (A and B both active, A
-    without a record): its hypotheses hold there, so a schedule exists after which exactly the top one is active. -/
+/-- `convergence_possible` instantiated on the bad end state of `stale_verdict_two_active_witness` (A and B both active): its
+    hypotheses hold there, so a schedule exists after which exactly the top one is active. -/
 example : ∃ s, run 64 init [.start "A" 100 2, .start "B" 10 10, .keepalive "A" 0, .keepalive "B" 0, .deliver "A", .deliver "B",
-      .tick 64, .keepalive "A" 0, .tick 64, .deliverStale "B" [("A", ⟨100, 2, 0⟩), ("B", ⟨10, 10, 0⟩)]] = some s ∧
+      .tick 64, .keepalive "A" 0, .tick 64, .deliverStale "B" [("A", ⟨100, 2, 0⟩), ("B", ⟨10, 10, 0⟩)] 2] = some s ∧
     ∃ ls s', run 64 s ls = some s' ∧ ExactlyTop s' ∧ Good 64 s' := by
   cases h : run 64 init [.start "A" 100 2, .start "B" 10 10, .keepalive "A" 0, .keepalive "B" 0, .deliver "A", .deliver "B",
-      .tick 64, .keepalive "A" 0, .tick 64, .deliverStale "B" [("A", ⟨100, 2, 0⟩), ("B", ⟨10, 10, 0⟩)]] with
+      .tick 64, .keepalive "A" 0, .tick 64, .deliverStale "B" [("A", ⟨100, 2, 0⟩), ("B", ⟨10, 10, 0⟩)] 2] with
   | none => exact absurd h (by decide)
   | some s =>
     refine ⟨s, rfl, ?_⟩
     have f : (run 64 init [.start "A" 100 2, .start "B" 10 10, .keepalive "A" 0, .keepalive "B" 0, .deliver "A", .deliver "B",
-        .tick 64, .keepalive "A" 0, .tick 64, .deliverStale "B" [("A", ⟨100, 2, 0⟩), ("B", ⟨10, 10, 0⟩)]]).map
+        .tick 64, .keepalive "A" 0, .tick 64, .deliverStale "B" [("A", ⟨100, 2, 0⟩), ("B", ⟨10, 10, 0⟩)] 2]).map
         (fun s => ((s.ops "A").map (fun o => (o.prio, o.lifetime, o.exiting)), (s.ops "B").map (fun o => (o.prio, o.lifetime, o.exiting)))) =
         some (some (100, 2, false), some (10, 10, false)) := by decide
     rw [h] at f
@@ -1065,49 +1172,76 @@ example : ∃ s, run 64 init [.start "A" 100 2, .start "B" 10 10, .keepalive "A"
           rcases hops i oi hi with ⟨rfl, rfl⟩ | ⟨rfl, rfl⟩ <;> rcases hops j oj hj with ⟨rfl, rfl⟩ | ⟨rfl, rfl⟩ <;>
             first | rfl | (exfalso; omega)
 
-/-- `benign_stale_eq_deliver` instantiated with a view that is NOT the current status: B's keep-alive has landed since the
-    view was taken (B's record stamped 64 now, 0 in the view); for A the view is benign, and processing it gives the very
-    state processing the current status gives. The view of `stale_view_two_active_witness` is not benign. -/
-example : ∃ s o, run 64 init [.start "A" 100 10, .start "B" 10 8, .keepalive "A" 0, .keepalive "B" 0, .tick 64, .keepalive "B" 0] = some s ∧
+set_option synthInstance.maxSize 2048 in
+/-- `stale_same_verdict` instantiated with a view that is NOT the current status: B's keep-alive has landed since the view
+    was taken (B's record stamped 64 now, version 3; stamped 0 in the view of version 2); for A the view gives the verdict of
+    the current status, and processing it sets A's entry exactly as processing the current status does, the peering
+    object untouched. The view of `stale_verdict_two_active_witness` does not give the current verdict. -/
+example : ∃ s o s1 s2, run 64 init [.start "A" 100 10, .start "B" 10 8, .keepalive "A" 0, .keepalive "B" 0, .tick 64, .keepalive "B" 0] = some s ∧
     s.ops "A" = some o ∧ s.status ≠ [("A", ⟨100, 10, 0⟩), ("B", ⟨10, 8, 0⟩)] ∧
-    benignView 64 s "A" o.prio [("A", ⟨100, 10, 0⟩), ("B", ⟨10, 8, 0⟩)] = true ∧
-    step 64 s (.deliverStale "A" [("A", ⟨100, 10, 0⟩), ("B", ⟨10, 8, 0⟩)]) = step 64 s (.deliver "A") := by
+    sameVerdict 64 s "A" o.prio [("A", ⟨100, 10, 0⟩), ("B", ⟨10, 8, 0⟩)] = true ∧
+    step 64 s (.deliverStale "A" [("A", ⟨100, 10, 0⟩), ("B", ⟨10, 8, 0⟩)] 2) = some s1 ∧ step 64 s (.deliver "A") = some s2 ∧
+    s1.ops = s2.ops ∧ s1.status = s.status := by
   cases h : run 64 init [.start "A" 100 10, .start "B" 10 8, .keepalive "A" 0, .keepalive "B" 0, .tick 64, .keepalive "B" 0] with
   | none => exact absurd h (by decide)
   | some s =>
     have f : (run 64 init [.start "A" 100 10, .start "B" 10 8, .keepalive "A" 0, .keepalive "B" 0, .tick 64, .keepalive "B" 0]).map
-        (fun s => (decide (s.status ≠ [("A", ⟨100, 10, 0⟩), ("B", ⟨10, 8, 0⟩)]),
-                   (s.ops "A").map (fun o => benignView 64 s "A" o.prio [("A", ⟨100, 10, 0⟩), ("B", ⟨10, 8, 0⟩)]))) =
-        some (true, some true) := by decide
+        (fun s => (decide (s.status ≠ [("A", ⟨100, 10, 0⟩), ("B", ⟨10, 8, 0⟩)]), s.ver,
+                   (s.ops "A").map (fun o => sameVerdict 64 s "A" o.prio [("A", ⟨100, 10, 0⟩), ("B", ⟨10, 8, 0⟩)]),
+                   (step 64 s (.deliverStale "A" [("A", ⟨100, 10, 0⟩), ("B", ⟨10, 8, 0⟩)] 2)).isSome,
+                   (step 64 s (.deliver "A")).isSome)) =
+        some (true, 3, some true, true, true) := by decide
     rw [h] at f
     simp only [Option.map_some, Option.some.injEq, Prod.mk.injEq, decide_eq_true_eq] at f
+    obtain ⟨f1, fv, f2, f3, f4⟩ := f
     cases hA : s.ops "A" with
-    | none => simp [hA] at f
+    | none => simp [hA] at f2
     | some o =>
-      simp only [hA, Option.map_some, Option.some.injEq] at f
-      exact ⟨s, o, rfl, hA, f.1, f.2, benign_stale_eq_deliver hA f.2⟩
+      simp only [hA, Option.map_some, Option.some.injEq] at f2
+      cases h1 : step 64 s (.deliverStale "A" [("A", ⟨100, 10, 0⟩), ("B", ⟨10, 8, 0⟩)] 2) with
+      | none => simp [h1] at f3
+      | some s1 =>
+        cases h2 : step 64 s (.deliver "A") with
+        | none => simp [h2] at f4
+        | some s2 =>
+          obtain ⟨e1, e2⟩ := stale_same_verdict hA (by omega) f2 h1 h2
+          exact ⟨s, o, s1, s2, rfl, hA, f1, f2, h1, h2, e1, e2⟩
 
+set_option synthInstance.maxSize 2048 in
 example : (run 64 init [.start "A" 100 2, .start "B" 10 10, .keepalive "A" 0, .keepalive "B" 0, .deliver "A", .deliver "B",
                   .tick 64, .keepalive "A" 0, .tick 64]).map
-    (fun s => benignView 64 s "B" 10 [("A", ⟨100, 2, 0⟩), ("B", ⟨10, 10, 0⟩)]) = some false := by decide
+    (fun s => sameVerdict 64 s "B" 10 [("A", ⟨100, 2, 0⟩), ("B", ⟨10, 10, 0⟩)]) = some false := by decide
 
-/-- `benign_run_eq_current` instantiated: a run in which A processes an older view (B has renewed since) that is benign is the
-    run in which A processes the current status; the run of `stale_view_two_active_witness` (F4) is NOT of that kind. -/
-example : run 64 init [.start "A" 100 10, .start "B" 10 8, .keepalive "A" 0, .keepalive "B" 0, .tick 64, .keepalive "B" 0,
-                       .deliverStale "A" [("A", ⟨100, 10, 0⟩), ("B", ⟨10, 8, 0⟩)], .deliver "B", .tick 64] =
-    run 64 init [.start "A" 100 10, .start "B" 10 8, .keepalive "A" 0, .keepalive "B" 0, .tick 64, .keepalive "B" 0,
-                 .deliver "A", .deliver "B", .tick 64] :=
-  benign_run_eq_current _ init (by decide)
+/-- a view that claims the CURRENT version but is not the current status is not a view the API ever handed out: the label
+    is not enabled (a version identifies a content); with the current status it is `deliver` -/
+example : (run 64 init [.start "A" 100 10, .start "B" 10 8, .keepalive "A" 0, .keepalive "B" 0,
+                        .deliverStale "A" [("A", ⟨100, 10, 0⟩)] 2]).isSome = false ∧
+    run 64 init [.start "A" 100 10, .start "B" 10 8, .keepalive "A" 0, .keepalive "B" 0,
+                 .deliverStale "A" [("A", ⟨100, 10, 0⟩), ("B", ⟨10, 8, 0⟩)] 2] =
+    run 64 init [.start "A" 100 10, .start "B" 10 8, .keepalive "A" 0, .keepalive "B" 0, .deliver "A"] := by
+  constructor
+  · decide
+  · rfl
 
-example : benignRun 64 init [.start "A" 100 2, .start "B" 10 10, .keepalive "A" 0, .keepalive "B" 0, .deliver "A", .deliver "B",
-                  .tick 64, .keepalive "A" 0, .tick 64, .deliverStale "B" [("A", ⟨100, 2, 0⟩), ("B", ⟨10, 10, 0⟩)]] = false := by decide
+/-- `live_record_kept` / `clean_removes_only_dead` instantiated on F4's schedule: whatever B concludes from its old view,
+    A's current record (stamped 64) is in the peering object afterwards -/
+example : ∀ s s', run 64 init [.start "A" 100 2, .start "B" 10 10, .keepalive "A" 0, .keepalive "B" 0, .deliver "A", .deliver "B",
+                  .tick 64, .keepalive "A" 0, .tick 64] = some s →
+    run 64 s [.deliverStale "B" [("A", ⟨100, 2, 0⟩), ("B", ⟨10, 10, 0⟩)] 2, .kill "B", .deliver "A", .tick 63] = some s' →
+    ("A", ⟨100, 2, 64⟩) ∈ s.status → s'.now = 191 → ("A", ⟨100, 2, 64⟩) ∈ s'.status := by
+  intro s s' _ h2 hm hnow
+  refine live_record_kept _ s s' h2 hm (by rw [hnow]; decide) ?_
+  intro l hl
+  simp only [List.mem_cons, List.mem_nil_iff, or_false] at hl
+  rcases hl with rfl | rfl | rfl | rfl <;> simp [Writes]
 
-set_option synthInstance.maxSize 1024 in
-/-- `failover_after_loss_partial` instantiated, with a `mid` that is not empty and not only ticks: A (top) is killed in the
-    stable state; B keeps renewing and keeps processing the status (still paused: A's record is alive) while 11 s pass;
+set_option synthInstance.maxSize 2048 in
+/-- `failover_after_loss_partial` instantiated, with a `mid` that is not empty, not only ticks, and contains an OLD view: A
+    (top) is killed in the stable state; B keeps renewing and processes a view of version 2 (still paused: A's record is
+    alive; the object is at version 3 by then) while 11 s pass;
     A's record has expired by then, B's own is fresh; B processes the status once more and is the active one. -/
 example : ∃ s s1 s2 s3, exStable = some s ∧ step 64 s (.kill "A") = some s1 ∧
-    run 64 s1 [.tick 256, .keepalive "B" 1, .deliver "B", .tick 256, .keepalive "B" 0, .tick 192] = some s2 ∧
+    run 64 s1 [.tick 256, .keepalive "B" 1, .deliverStale "B" [("A", exA), ("B", exB)] 2, .tick 256, .keepalive "B" 0, .tick 192] = some s2 ∧
     run 64 s2 [.deliver "B"] = some s3 ∧ (s1.ops "B").map (·.paused) = some true ∧ (s2.ops "B").map (·.paused) = some true ∧
     ExactlyTop s3 ∧ (s3.ops "B").map (·.paused) = some false := by
   cases h : exStable with
@@ -1116,7 +1250,7 @@ example : ∃ s s1 s2 s3, exStable = some s ∧ step 64 s (.kill "A") = some s1 
     obtain ⟨_, _, _, _, _, hops⟩ := exStable_shape s h
     have hst := exStable_stable s h
     have hr : Reachable 64 s := reachable_run exRun init s Reachable.init h
-    let mid : List Label := [.tick 256, .keepalive "B" 1, .deliver "B", .tick 256, .keepalive "B" 0, .tick 192]
+    let mid : List Label := [.tick 256, .keepalive "B" 1, .deliverStale "B" [("A", exA), ("B", exB)] 2, .tick 256, .keepalive "B" 0, .tick 192]
     have tot : (exStable.bind (fun s => (step 64 s (.kill "A")).bind (fun s1 => (run 64 s1 mid).bind (fun s2 =>
         (run 64 s2 [.deliver "B"]).map (fun s3 =>
           ((s1.ops "B").map (·.paused), (s2.ops "B").map (·.paused), (s3.ops "B").map (·.paused))))))) =
@@ -1172,7 +1306,7 @@ example : ∃ s s1 s2 s3, exStable = some s ∧ step 64 s (.kill "A") = some s1 
             h3
           exact ⟨s, s1, s2, s3, rfl, h1, h2, h3, p1, p2, res.1, p3⟩
 
-set_option synthInstance.maxSize 1024 in
+set_option synthInstance.maxSize 2048 in
 /-- `failover_after_loss_timely_partial` (and `own_record_fresh` on a run in which time passes) instantiated: A (top) is killed
     in the stable state; B renews every 3 s, each record landing one tick after it was stamped, and processes the status
     once; after 10 s A's record has expired. The WHOLE run from `init` passes the decidable check of `Allowed` with B = 2
@@ -1246,19 +1380,21 @@ example : ∃ s s1 s2 s3, exStable = some s ∧ step 64 s (.kill "A") = some s1 
             h3
           exact ⟨s, s1, s2, s3, rfl, h1, h2, h3, ht2, p2, res.1, p3⟩
 
-/-- `withdrawn_stays_partial` instantiated for the order of the code: A's record is withdrawn first (`exitBegin`; no self-touch
-    of A is in flight in the stable state), then B resumes, renews, processes an OLD view naming A, A's handling ends, time
-    passes: A has no record at the end. -/
-example : ∀ s s1 s', exStable = some s → step 64 s (.exitBegin "A") = some s1 →
-    run 64 s1 [.deliver "B", .keepalive "B" 1, .deliverStale "B" [("A", exA), ("B", exB)], .exitEnd "A", .tick 640, .deliver "B"] = some s' →
+/-- `withdrawn_stays` instantiated: A is asked to stop, B processes the status in the exit window (stays paused), A renews,
+    then withdraws (`exitEnd`); B resumes, renews, processes an OLD view naming A, time passes: A has no record at the end. -/
+example : ∀ s s1 s', (exStable.bind (fun s0 => (step 64 s0 (.exitBegin "A")).bind (fun sb =>
+      run 64 sb [.deliver "B", .keepalive "A" 1]))) = some s →
+    step 64 s (.exitEnd "A") = some s1 →
+    run 64 s1 [.deliver "B", .keepalive "B" 1, .deliverStale "B" [("A", exA), ("B", exB)] 2, .tick 640, .deliver "B"] = some s' →
     ∀ r, ("A", r) ∉ s'.status := by
-  intro s s1 s' h h1 h2
-  obtain ⟨_, _, _, hA, _, _⟩ := exStable_shape s h
-  exact withdrawn_stays_partial (Or.inl h1) (by intro o ho; rw [hA] at ho; injection ho with e; subst e; rfl) _
-    (by intro l hl; simp at hl; rcases hl with rfl | rfl | rfl | rfl | rfl | rfl <;> simp) h2
+  intro s s1 s' _ h1 h2
+  exact withdrawn_stays (Or.inl h1) _
+    (by intro l hl; simp at hl; rcases hl with rfl | rfl | rfl | rfl | rfl <;> simp) h2
 
-example : (exStable.bind (fun s => (step 64 s (.exitBegin "A")).bind (fun s1 =>
-    run 64 s1 [.deliver "B", .keepalive "B" 1, .deliverStale "B" [("A", exA), ("B", exB)], .exitEnd "A", .tick 640, .deliver "B"]))).map
+set_option synthInstance.maxSize 2048 in
+example : (exStable.bind (fun s0 => (step 64 s0 (.exitBegin "A")).bind (fun sb =>
+    (run 64 sb [.deliver "B", .keepalive "A" 1]).bind (fun s => (step 64 s (.exitEnd "A")).bind (fun s1 =>
+    run 64 s1 [.deliver "B", .keepalive "B" 1, .deliverStale "B" [("A", exA), ("B", exB)] 2, .tick 640, .deliver "B"]))))).map
     (fun s => (s.status.map (·.1), (s.ops "A").map (·.alive), (s.ops "B").map (·.paused))) = some (["B"], some false, some false) := by decide
 
 -- `equal_priority_both_paused_partial`: two operators of priority 10, both delivered, both paused (concretely)
@@ -1304,7 +1440,7 @@ example : ((run 64 init [.start "A" 100 2, .start "B" 10 10, .keepalive "A" 0, .
 example : (run 64 init [.start "A" 100 2, .start "B" 10 10, .keepalive "A" 0, .keepalive "B" 0, .deliver "B", .exit "B",
                         .tick 64, .wake "B" 0]).isSome = false := by decide
 
--- `withdrawn_stays_partial` applies to an operator that exits WHILE its call sleeps towards a blocker's deadline
+-- `withdrawn_stays` applies to an operator that exits WHILE its call sleeps towards a blocker's deadline
 example : ((run 64 init [.start "A" 100 2, .start "B" 10 10, .keepalive "A" 0, .keepalive "B" 0, .deliver "B"]).map
     (fun s => (s.ops "B").map (fun o => (o.alive, o.sleeping)))) = some (some (true, true)) := by decide
 example : ((run 64 init [.start "A" 100 2, .start "B" 10 10, .keepalive "A" 0, .keepalive "B" 0, .deliver "B", .exit "B", .tick 64]).map
